@@ -1,17 +1,24 @@
 import GaeaVerif.Model.ResultStream
+import GaeaVerif.Model.ResultSession
 import GaeaVerif.Gen.Consts
 /-
   C39 — Results are complete or an error, never silently truncated.
 
-  Theorems about `Model/ResultStream.lean` (tie to the code: correspondence
-  `gvh run C39` against a scripted backend through the real DirectConnection,
-  connection pool, SessionExecutor and ClientConn; `Gen.maxPayloadLen`).
-  All statements hold for every backend stream `s` (any length, any row
-  sizes, ending any way), every chunk threshold `T` and every row limit
-  `maxRows` — no bound anywhere.
+  Theorems about `Model/ResultStream.lean` (one result set on its way from a
+  backend to the client or to the merge) and, in the second half of the file,
+  about `Model/ResultSession.lean` (whole sessions: answers of several
+  results, transactions and keep-session pinning, statement deadlines, clients
+  that stop reading, sharded statements from above the planner).  Tie to the
+  code: correspondence `gvh run C39` against scripted backends through the real
+  DirectConnection, connection pool, SessionExecutor, planner/merge,
+  Session.Run and ClientConn; `Gen.maxPayloadLen`.
+  All statements hold for every backend stream / answer (any length, any row
+  sizes, ending any way), every chunk threshold `T`, every row limit
+  `maxRows`, every client behaviour `b` and every session history — no bound
+  anywhere.
 -/
 namespace GaeaVerif.C39
-open GaeaVerif GaeaVerif.ResultStream
+open GaeaVerif GaeaVerif.ResultStream GaeaVerif.ResultSession
 
 /-- The packets of a list of rows. -/
 def rowsOf (rs : List Row) : List Pkt := rs.map Pkt.row
@@ -53,6 +60,7 @@ theorem readRows_ok {T : Nat} {m : Int} :
       obtain ⟨rfl, rfl, rfl⟩ := h
       exact ⟨[], by simp, by simp, by simp, by intro _ h; simpa using h⟩
     | err => simp [readRows] at h
+    | stall => simp [readRows] at h
     | row r =>
       simp only [readRows] at h
       by_cases hlim : m > 0 ∧ ((n + 1 : Nat) : Int) > m
@@ -91,6 +99,7 @@ theorem drain_ok : ∀ {s rest : List Pkt}, drainResults s = .ok rest →
       simp only [drainResults, Drain.ok.injEq] at h
       subst h; exact ⟨[], by simp⟩
     | err => simp [drainResults] at h
+    | stall => simp [drainResults] at h
     | row r =>
       obtain ⟨rws, h1⟩ := ih (by simpa [drainResults] using h)
       exact ⟨r :: rws, by simp [h1]⟩
@@ -111,6 +120,7 @@ theorem readRows_err_rest {T : Nat} {m : Int} :
     | err =>
       simp only [readRows, Read.errBackend.injEq]
       exact ⟨fun h => ⟨[], by simp [h]⟩, by simp⟩
+    | stall => simp [readRows]
     | row r =>
       simp only [readRows]
       by_cases hlim : m > 0 ∧ ((n + 1 : Nat) : Int) > m
@@ -124,6 +134,7 @@ theorem readRows_err_rest {T : Nat} {m : Int} :
           obtain ⟨rws, h1⟩ := drain_ok hd
           exact ⟨r :: rws, by simp [h1]⟩
         | failed => simp
+        | stalled => simp
       · rw [if_neg hlim]
         by_cases hb : buf + r.size > T
         · rw [if_pos hb]; simp
@@ -181,12 +192,14 @@ def isLimit : Read → Prop
   | .errLimitDrain => True
   | _ => False
 
-/-- Rows beyond the limit: the reader fails with the limit error, unless the
-    threshold stops the chunk first, still within the limit. -/
+/-- Rows beyond the limit: the reader fails with the limit error (or never
+    returns, when the backend falls silent while the rest is drained), unless
+    the threshold stops the chunk first, still within the limit. -/
 theorem readRows_over (T : Nat) (m : Int) (hm : m > 0) :
     ∀ (rows : List Row) (tail : List Pkt) (acc : List Row) (n buf : Nat),
       (n : Int) ≤ m → ((n + rows.length : Nat) : Int) > m →
-      isLimit (readRows T m (rowsOf rows ++ tail) acc n buf) ∨
+      (isLimit (readRows T m (rowsOf rows ++ tail) acc n buf) ∨
+        readRows T m (rowsOf rows ++ tail) acc n buf = .stalled) ∨
       (∃ pre post, rows = pre ++ post ∧ pre ≠ [] ∧ ((n + pre.length : Nat) : Int) ≤ m ∧
           readRows T m (rowsOf rows ++ tail) acc n buf = .ok (pre.reverse ++ acc) true (rowsOf post ++ tail)) := by
   intro rows
@@ -221,6 +234,29 @@ theorem readRows_over (T : Nat) (m : Int) (hm : m > 0) :
 theorem isLimit_cases {r : Read} (h : isLimit r) : (∃ rest, r = .errLimit rest) ∨ r = .errLimitDrain := by
   cases r <;> simp [isLimit] at h ⊢
 
+theorem drain_complete : ∀ (rows : List Row) (rest : List Pkt),
+    drainResults (rowsOf rows ++ .eof :: rest) = .ok rest := by
+  intro rows
+  induction rows with
+  | nil => intro rest; simp [drainResults]
+  | cons r rs ih => intro rest; simp [drainResults, ih]
+
+/-- A complete result is read without the reader ever blocking. -/
+theorem readRows_complete_not_stalled (T : Nat) (m : Int) :
+    ∀ (rows : List Row) (rest : List Pkt) (acc : List Row) (n buf : Nat),
+      readRows T m (rowsOf rows ++ .eof :: rest) acc n buf ≠ .stalled := by
+  intro rows
+  induction rows with
+  | nil => intro rest acc n buf; simp [readRows]
+  | cons r rs ih =>
+    intro rest acc n buf
+    simp only [rowsOf_cons, List.cons_append, readRows]
+    split
+    · rw [drain_complete]; simp
+    · split
+      · simp
+      · exact ih _ _ _ _
+
 /-! ### sharded statements -/
 
 theorem fetchAll_step (T : Nat) (m : Int) (fuel : Nat) (s : List Pkt) (acc : List Row) (n : Nat) :
@@ -232,7 +268,8 @@ theorem fetchAll_step (T : Nat) (m : Int) (fuel : Nat) (s : List Pkt) (acc : Lis
       | .errConn => .errConn
       | .errBackend rest => .errBackend (.pooled rest)
       | .errLimit rest => .errLimit (.pooled rest)
-      | .errLimitDrain => .errLimit .closed := rfl
+      | .errLimitDrain => .errLimit .closed
+      | .stalled => .stalled := rfl
 
 /-- **C39 (sharded, never truncated).** Whatever the backend stream, the chunk
     threshold and the limit: if a shard's execution returns rows, they are all
@@ -279,6 +316,7 @@ theorem fetchAll_ok (T : Nat) (m : Int) :
     | errBackend r => rw [hr] at h; cases h
     | errLimit r => rw [hr] at h; cases h
     | errLimitDrain => rw [hr] at h; cases h
+    | stalled => rw [hr] at h; cases h
 
 theorem execShard_ok (T : Nat) (m : Int) (s : List Pkt) (rows : List Row) (fate : Fate)
     (h : execShard T m s = .ok rows fate) :
@@ -328,11 +366,13 @@ theorem execShard_complete (T : Nat) (m : Int) (rows : List Row) (rest : List Pk
 
 /-- **C39 (sharded, row limit).** A shard whose backend sends more rows than
     the limit fails with the limit error — wherever the chunk boundaries fall
-    and whatever follows those rows. -/
+    and whatever follows those rows (if the backend falls silent while the
+    rest of the result is drained, the statement ends by its time-out). -/
 theorem fetchAll_over (T : Nat) (m : Int) (hm : m > 0) :
     ∀ (fuel : Nat) (rows : List Row) (tail : List Pkt) (acc : List Row) (n : Nat),
       n = acc.length → rows.length < fuel → (n : Int) ≤ m → ((n + rows.length : Nat) : Int) > m →
-      ∃ fate, fetchAll T m fuel (rowsOf rows ++ tail) acc n = .errLimit fate := by
+      (∃ fate, fetchAll T m fuel (rowsOf rows ++ tail) acc n = .errLimit fate) ∨
+        fetchAll T m fuel (rowsOf rows ++ tail) acc n = .stalled := by
   intro fuel
   induction fuel with
   | zero => intro rows tail acc n _ h; omega
@@ -341,9 +381,12 @@ theorem fetchAll_over (T : Nat) (m : Int) (hm : m > 0) :
     rw [fetchAll_step]
     cases readRows_over T m hm rows tail acc n 0 h1 h2 with
     | inl h =>
-      cases isLimit_cases h with
-      | inl h => obtain ⟨r, h⟩ := h; rw [h]; exact ⟨_, rfl⟩
-      | inr h => rw [h]; exact ⟨_, rfl⟩
+      cases h with
+      | inl h =>
+        cases isLimit_cases h with
+        | inl h => obtain ⟨r, h⟩ := h; rw [h]; exact .inl ⟨_, rfl⟩
+        | inr h => rw [h]; exact .inl ⟨_, rfl⟩
+      | inr h => rw [h]; exact .inr rfl
     | inr h =>
       obtain ⟨pre, post, e1, e2, e3, e4⟩ := h
       rw [e4]
@@ -359,7 +402,8 @@ theorem fetchAll_over (T : Nat) (m : Int) (hm : m > 0) :
 
 theorem execShard_over (T : Nat) (m : Int) (hm : m > 0) (rows : List Row) (tail : List Pkt)
     (h : (rows.length : Int) > m) :
-    ∃ fate, execShard T m (rowsOf rows ++ tail) = .errLimit fate := by
+    (∃ fate, execShard T m (rowsOf rows ++ tail) = .errLimit fate) ∨
+      execShard T m (rowsOf rows ++ tail) = .stalled := by
   have := fetchAll_over T m hm ((rowsOf rows ++ tail).length + 1) rows tail [] 0 rfl
     (by simp; omega) (by simp; omega) (by simpa using h)
   simpa [execShard] using this
@@ -415,6 +459,7 @@ theorem shard_complete_or_error (T : Nat) (m : Int) :
     | errLimit f => rw [hs] at h; cases h
     | errBackend f => rw [hs] at h; cases h
     | errConn => rw [hs] at h; cases h
+    | stalled => rw [hs] at h; cases h
     | fuel => rw [hs] at h; cases h
 
 /-- **C39, sharded statements, delivered in full.** When every shard's backend
@@ -445,8 +490,9 @@ theorem shard_row_limit (T : Nat) (m : Int) (hm : m > 0) :
     rw [executeSQLs_cons]
     cases List.mem_cons.mp hin with
     | inl he =>
-      obtain ⟨fate, hf⟩ := execShard_over T m hm rows tail h
-      rw [← he, hf]
+      cases execShard_over T m hm rows tail h with
+      | inl hf => obtain ⟨fate, hf⟩ := hf; rw [← he, hf]
+      | inr hf => rw [← he, hf]
     | inr hi =>
       rw [ih rows tail hi h]
       cases execShard T m s <;> rfl
@@ -458,18 +504,37 @@ example : executeSQLs 10 (-1) [[.row ⟨0, 6⟩, .row ⟨1, 6⟩]] = none := by 
 
 /-! ### unsharded statements: streaming to the client -/
 
-theorem streamMore_step (T : Nat) (m : Int) (fuel : Nat) (s : List Pkt) (outRev : List Row) (d : Nat) :
-    streamMore T m (fuel + 1) s outRev d =
+@[simp] theorem errFin_ne_eof (b : Option Nat) (k : ErrKind) : errFin b k ≠ .eof := by
+  unfold errFin; split <;> simp
+
+@[simp] theorem errFin_ne_fuel (b : Option Nat) (k : ErrKind) : errFin b k ≠ .fuel := by
+  unfold errFin; split <;> simp
+
+@[simp] theorem errFin_none (k : ErrKind) : errFin none k = .err k := by
+  simp [errFin, accepts]
+
+@[simp] theorem accepts_none (n : Nat) : accepts none n = true := rfl
+
+@[simp] theorem spend_none (n : Nat) : spend none n = none := rfl
+
+theorem streamMore_step (T : Nat) (m : Int) (fuel : Nat) (s : List Pkt) (outRev : List Row) (d : Nat)
+    (b : Option Nat) :
+    streamMore T m (fuel + 1) s outRev d b =
       match readRows T m s [] 0 0 with
       | .ok chunkRev more rest =>
         if m > 0 ∧ ((d + chunkRev.length : Nat) : Int) > m then
-          ⟨outRev.reverse, .err .limit, if more then .closed else .pooled rest⟩
-        else if more then streamMore T m fuel rest (chunkRev ++ outRev) (d + chunkRev.length)
-        else ⟨(chunkRev ++ outRev).reverse, .eof, .pooled rest⟩
+          ⟨outRev.reverse, errFin b .limit, if more then .closed else .pooled rest⟩
+        else if accepts b (chunkRev.length + (if more then 0 else 1)) then
+          if more then streamMore T m fuel rest (chunkRev ++ outRev) (d + chunkRev.length)
+            (spend b (chunkRev.length + (if more then 0 else 1)))
+          else ⟨(chunkRev ++ outRev).reverse, .eof, .pooled rest⟩
+        else ⟨outRev.reverse ++ chunkRev.reverse.take (b.getD 0), .closed,
+              if more then .closed else .pooled rest⟩
       | .errConn => ⟨outRev.reverse, .closed, .closed⟩
-      | .errBackend rest => ⟨outRev.reverse, .err .backend, .pooled rest⟩
-      | .errLimit rest => ⟨outRev.reverse, .err .limit, .pooled rest⟩
-      | .errLimitDrain => ⟨outRev.reverse, .err .limit, .closed⟩ := rfl
+      | .errBackend rest => ⟨outRev.reverse, errFin b .backend, .pooled rest⟩
+      | .errLimit rest => ⟨outRev.reverse, errFin b .limit, .pooled rest⟩
+      | .errLimitDrain => ⟨outRev.reverse, errFin b .limit, .closed⟩
+      | .stalled => ⟨outRev.reverse, .hang, .closed⟩ := rfl
 
 /-- What the streaming loop guarantees about a client view `c` for the backend
     stream `s`, given `outRev` already sent and `d` rows counted. -/
@@ -482,15 +547,15 @@ theorem StreamInv.trivial (m : Int) (s : List Pkt) (outRev : List Row) (d : Nat)
     (h1 : c.rows = outRev.reverse) (h2 : c.fin ≠ .eof) : StreamInv m s outRev d c :=
   ⟨[], s, by simp [h1], by simp, fun h => absurd h h2⟩
 
-/-- Invariant of the streaming loop. -/
+/-- Invariant of the streaming loop, whatever the client still takes. -/
 theorem streamMore_sound (T : Nat) (m : Int) :
-    ∀ (fuel : Nat) (s : List Pkt) (outRev : List Row) (d : Nat),
-      StreamInv m s outRev d (streamMore T m fuel s outRev d) := by
+    ∀ (fuel : Nat) (s : List Pkt) (outRev : List Row) (d : Nat) (b : Option Nat),
+      StreamInv m s outRev d (streamMore T m fuel s outRev d b) := by
   intro fuel
   induction fuel with
-  | zero => intro s outRev d; exact StreamInv.trivial _ _ _ _ _ rfl (by simp [streamMore])
+  | zero => intro s outRev d b; exact StreamInv.trivial _ _ _ _ _ rfl (by simp [streamMore])
   | succ fuel ih =>
-    intro s outRev d
+    intro s outRev d b
     rw [streamMore_step]
     cases hr : readRows T m s [] 0 0 with
     | ok chunkRev more rest =>
@@ -501,73 +566,69 @@ theorem streamMore_sound (T : Nat) (m : Int) :
       · rw [if_pos hlim]
         exact StreamInv.trivial _ _ _ _ _ rfl (by simp)
       · rw [if_neg hlim]
-        cases more with
-        | true =>
-          simp only [if_true] at e2 ⊢
-          obtain ⟨new2, rest2, f1, f2, f3⟩ := ih rest (chunkRev ++ outRev) (d + chunkRev.length)
-          refine ⟨new ++ new2, rest2, ?_, ?_, ?_⟩
-          · rw [f1, e1]; simp
-          · rw [e2, f2]; simp
-          · intro hfin
-            obtain ⟨rest', g1, g2, g3⟩ := f3 hfin
-            refine ⟨rest', ?_, g2, ?_⟩
-            · rw [Complete] at g1 ⊢; rw [e2, g1]; simp
-            · intro hm; have := g3 hm
-              rw [e1] at this
-              simp only [List.length_append, List.length_reverse] at this ⊢
-              have e : d + (new.length + new2.length) = d + new.length + new2.length := by omega
-              rw [e]; exact this
-        | false =>
-          simp only [Bool.false_eq_true, if_false] at e2 ⊢
-          refine ⟨new, .eof :: rest, by rw [e1]; simp, e2, ?_⟩
-          intro _
-          refine ⟨rest, by simpa [Complete] using e2, rfl, ?_⟩
-          intro hm
-          have : ¬ ((d + chunkRev.length : Nat) : Int) > m := fun h' => hlim ⟨hm, h'⟩
-          rw [e1] at this
-          simp only [List.length_reverse] at this
-          omega
+        by_cases hacc : accepts b (chunkRev.length + (if more = true then 0 else 1)) = true
+        · rw [if_pos hacc]
+          cases more with
+          | true =>
+            simp only [if_true] at e2 ⊢
+            obtain ⟨new2, rest2, f1, f2, f3⟩ := ih rest (chunkRev ++ outRev) (d + chunkRev.length)
+              (spend b (chunkRev.length + 0))
+            refine ⟨new ++ new2, rest2, ?_, ?_, ?_⟩
+            · rw [f1, e1]; simp
+            · rw [e2, f2]; simp
+            · intro hfin
+              obtain ⟨rest', g1, g2, g3⟩ := f3 hfin
+              refine ⟨rest', ?_, g2, ?_⟩
+              · rw [Complete] at g1 ⊢; rw [e2, g1]; simp
+              · intro hm; have := g3 hm
+                rw [e1] at this
+                simp only [List.length_append, List.length_reverse] at this ⊢
+                have e : d + (new.length + new2.length) = d + new.length + new2.length := by omega
+                rw [e]; exact this
+          | false =>
+            simp only [Bool.false_eq_true, if_false] at e2 ⊢
+            refine ⟨new, .eof :: rest, by rw [e1]; simp, e2, ?_⟩
+            intro _
+            refine ⟨rest, by simpa [Complete] using e2, rfl, ?_⟩
+            intro hm
+            have : ¬ ((d + chunkRev.length : Nat) : Int) > m := fun h' => hlim ⟨hm, h'⟩
+            rw [e1] at this
+            simp only [List.length_reverse] at this
+            omega
+        · rw [if_neg hacc]
+          -- the write failed: the client holds a part of the chunk and is told nothing more
+          refine ⟨new.take (b.getD 0), rowsOf (new.drop (b.getD 0)) ++ (if more = true then rest else .eof :: rest),
+            ?_, ?_, ?_⟩
+          · simp [e1]
+          · rw [e2, ← List.append_assoc, ← rowsOf_append, List.take_append_drop]
+          · intro h; simp at h
     | errConn => exact StreamInv.trivial _ _ _ _ _ rfl (by simp)
     | errBackend r => exact StreamInv.trivial _ _ _ _ _ rfl (by simp)
     | errLimit r => exact StreamInv.trivial _ _ _ _ _ rfl (by simp)
     | errLimitDrain => exact StreamInv.trivial _ _ _ _ _ rfl (by simp)
+    | stalled => exact StreamInv.trivial _ _ _ _ _ rfl (by simp)
 
-theorem unshard_eq (T : Nat) (m : Int) (s : List Pkt) :
-    unshard T m s =
-      match readRows T m s [] 0 0 with
-      | .ok rowsRev more rest =>
-        if more then streamMore T m (rest.length + 1) rest rowsRev rowsRev.length
-        else ⟨rowsRev.reverse, .eof, .pooled rest⟩
-      | .errConn => ⟨[], .closed, .closed⟩
-      | .errBackend rest => ⟨[], .err .backend, .pooled rest⟩
-      | .errLimit rest => ⟨[], .err .limit, .pooled rest⟩
-      | .errLimitDrain => ⟨[], .err .limit, .closed⟩ := rfl
-
-/-- **C39, unsharded statements (`unshard_complete`).** For every backend
-    stream, threshold and limit: the rows the client receives are, in order,
-    the first packets of the backend's answer (nothing invented, duplicated or
-    reordered); and if the client is sent the closing EOF — i.e. is told the
-    result is complete — then they are *all* rows of a complete backend result
-    (the stream is exactly those rows followed by the backend's EOF), their
-    number respects the limit, and the backend connection returns to the pool
-    standing right behind that EOF. Otherwise the client gets an error packet
-    or a closed connection, never a shortened result presented as complete. -/
-theorem unshard_complete (T : Nat) (m : Int) (s : List Pkt) :
-    (∃ rest, s = rowsOf (unshard T m s).rows ++ rest) ∧
-    ((unshard T m s).fin = .eof → ∃ rest', Complete s (unshard T m s).rows rest' ∧
-      (unshard T m s).fate = .pooled rest' ∧ (m > 0 → ((unshard T m s).rows.length : Int) ≤ m)) := by
-  rw [unshard_eq]
-  cases hr : readRows T m s [] 0 0 with
-  | ok rowsRev more rest =>
-    obtain ⟨new, e1, e2, e3, e4⟩ := readRows_ok hr
-    simp only [List.append_nil] at e1
-    have hrr : rowsRev.reverse = new := by rw [e1]; simp
-    have hlen : rowsRev.length = new.length := by rw [e1]; simp
-    simp only
+/-- The first chunk of a result set written to the client, then the loop:
+    same guarantee. -/
+theorem sendResult_sound (T : Nat) (m : Int) (s : List Pkt) (rowsRev : List Row) (more : Bool)
+    (rest : List Pkt) (b : Option Nat) (hr : readRows T m s [] 0 0 = .ok rowsRev more rest) :
+    (∃ rest', s = rowsOf (sendResult T m rowsRev more rest b).rows ++ rest') ∧
+    ((sendResult T m rowsRev more rest b).fin = .eof →
+      ∃ rest', Complete s (sendResult T m rowsRev more rest b).rows rest' ∧
+        (sendResult T m rowsRev more rest b).fate = .pooled rest' ∧
+        (m > 0 → ((sendResult T m rowsRev more rest b).rows.length : Int) ≤ m)) := by
+  obtain ⟨new, e1, e2, e3, e4⟩ := readRows_ok hr
+  simp only [List.append_nil] at e1
+  have hrr : rowsRev.reverse = new := by rw [e1]; simp
+  have hlen : rowsRev.length = new.length := by rw [e1]; simp
+  unfold sendResult
+  by_cases hacc : accepts b (headerPackets + rowsRev.length + (if more = true then 0 else 1)) = true
+  · rw [if_pos hacc]
     cases more with
     | true =>
       simp only [if_true] at e2 ⊢
       obtain ⟨new2, rest2, f1, f2, f3⟩ := streamMore_sound T m (rest.length + 1) rest rowsRev rowsRev.length
+        (spend b (headerPackets + rowsRev.length + 0))
       rw [f1]
       refine ⟨⟨rest2, by rw [e2, f2, hrr]; simp⟩, ?_⟩
       intro hfin
@@ -582,15 +643,50 @@ theorem unshard_complete (T : Nat) (m : Int) (s : List Pkt) :
       rw [hrr]
       refine ⟨⟨.eof :: rest, e2⟩, fun _ => ⟨rest, by simpa [Complete] using e2, rfl, ?_⟩⟩
       intro hm; have := e4 hm (by simp; omega); simpa using this
+  · rw [if_neg hacc]
+    refine ⟨⟨rowsOf (new.drop (b.getD 0 - headerPackets)) ++ (if more = true then rest else .eof :: rest), ?_⟩,
+      by intro h; simp at h⟩
+    simp only [hrr]
+    rw [e2, ← List.append_assoc, ← rowsOf_append, List.take_append_drop]
+
+theorem unshard_eq (T : Nat) (m : Int) (s : List Pkt) (b : Option Nat) :
+    unshard T m s b =
+      match readRows T m s [] 0 0 with
+      | .ok rowsRev more rest => sendResult T m rowsRev more rest b
+      | .errConn => ⟨[], .closed, .closed⟩
+      | .errBackend rest => ⟨[], errFin b .backend, .pooled rest⟩
+      | .errLimit rest => ⟨[], errFin b .limit, .pooled rest⟩
+      | .errLimitDrain => ⟨[], errFin b .limit, .closed⟩
+      | .stalled => ⟨[], .stalled, .closed⟩ := rfl
+
+/-- **C39, unsharded statements (`unshard_complete`).** For every backend
+    stream, threshold and limit, and whatever the client does (`b`: it keeps
+    reading, or its connection breaks after any number of packets): the rows
+    the client receives are, in order, the first packets of the backend's answer
+    (nothing invented, duplicated or reordered); and if the client is sent the
+    closing EOF — i.e. is told the result is complete — then they are *all*
+    rows of a complete backend result (the stream is exactly those rows
+    followed by the backend's EOF), their number respects the limit, and the
+    backend connection returns to the pool standing right behind that EOF.
+    Otherwise the client gets an error packet or a closed connection, never a
+    shortened result presented as complete. -/
+theorem unshard_complete (T : Nat) (m : Int) (s : List Pkt) (b : Option Nat) :
+    (∃ rest, s = rowsOf (unshard T m s b).rows ++ rest) ∧
+    ((unshard T m s b).fin = .eof → ∃ rest', Complete s (unshard T m s b).rows rest' ∧
+      (unshard T m s b).fate = .pooled rest' ∧ (m > 0 → ((unshard T m s b).rows.length : Int) ≤ m)) := by
+  rw [unshard_eq]
+  cases hr : readRows T m s [] 0 0 with
+  | ok rowsRev more rest => exact sendResult_sound T m s rowsRev more rest b hr
   | errConn => exact ⟨⟨s, by simp⟩, by simp⟩
   | errBackend r => exact ⟨⟨s, by simp⟩, by simp⟩
   | errLimit r => exact ⟨⟨s, by simp⟩, by simp⟩
   | errLimitDrain => exact ⟨⟨s, by simp⟩, by simp⟩
+  | stalled => exact ⟨⟨s, by simp⟩, by simp⟩
 
 theorem streamMore_complete (T : Nat) (m : Int) :
     ∀ (fuel : Nat) (rows : List Row) (rest : List Pkt) (outRev : List Row) (d : Nat),
       rows.length < fuel → Within m (d + rows.length) →
-      streamMore T m fuel (rowsOf rows ++ .eof :: rest) outRev d =
+      streamMore T m fuel (rowsOf rows ++ .eof :: rest) outRev d none =
         ⟨outRev.reverse ++ rows, .eof, .pooled rest⟩ := by
   intro fuel
   induction fuel with
@@ -629,7 +725,7 @@ theorem streamMore_complete (T : Nat) (m : Int) :
         | inl h => omega
         | inr h => omega
       rw [if_neg hlim]
-      simp only [if_true]
+      simp only [accepts_none, spend_none, if_true]
       rw [ih post rest (pre.reverse ++ outRev) _
         (by rw [e1] at hf; simp only [List.length_append] at hf; omega)
         (by rw [e1] at hw; simp only [List.length_append, List.length_reverse] at hw ⊢
@@ -639,22 +735,23 @@ theorem streamMore_complete (T : Nat) (m : Int) :
 
 /-- **C39, unsharded statements, delivered in full (`row_limit`, second
     half).** A complete backend result with no more rows than the limit (or
-    with no limit) reaches the client in full — all rows in order, then the
-    EOF — whatever its size and however many chunks it is streamed in; the
-    backend connection returns to the pool right behind the result. -/
+    with no limit) reaches a client that keeps reading in full — all rows in
+    order, then the EOF — whatever its size and however many chunks it is
+    streamed in; the backend connection returns to the pool right behind the
+    result. -/
 theorem unshard_delivered_in_full (T : Nat) (m : Int) (rows : List Row) (rest : List Pkt)
     (hw : Within m rows.length) :
-    unshard T m (rowsOf rows ++ .eof :: rest) = ⟨rows, .eof, .pooled rest⟩ := by
+    unshard T m (rowsOf rows ++ .eof :: rest) none = ⟨rows, .eof, .pooled rest⟩ := by
   rw [unshard_eq]
   cases readRows_rows T m rows (.eof :: rest) [] 0 0 (by simpa using hw) with
   | inl h =>
     obtain ⟨buf', h⟩ := h
     rw [h]
-    simp [readRows]
+    simp [readRows, sendResult]
   | inr h =>
     obtain ⟨pre, post, e1, e2, e3⟩ := h
     rw [e3]
-    simp only [List.append_nil, if_true]
+    simp only [List.append_nil, sendResult, accepts_none, spend_none, if_true]
     have hpre : 0 < pre.length := List.length_pos_iff.mpr e2
     rw [streamMore_complete T m _ post rest pre.reverse pre.reverse.length
       (by simp; omega)
@@ -664,7 +761,7 @@ theorem unshard_delivered_in_full (T : Nat) (m : Int) (rows : List Row) (rest : 
 theorem streamMore_over (T : Nat) (m : Int) (hm : m > 0) :
     ∀ (fuel : Nat) (rows : List Row) (rest : List Pkt) (outRev : List Row) (d : Nat),
       rows.length < fuel → (d : Int) ≤ m → ((d + rows.length : Nat) : Int) > m →
-      (streamMore T m fuel (rowsOf rows ++ .eof :: rest) outRev d).fin = .err .limit := by
+      (streamMore T m fuel (rowsOf rows ++ .eof :: rest) outRev d none).fin = .err .limit := by
   intro fuel
   induction fuel with
   | zero => intro rows rest outRev d h; omega
@@ -677,16 +774,21 @@ theorem streamMore_over (T : Nat) (m : Int) (hm : m > 0) :
         (match readRows T m (rowsOf rows ++ Pkt.eof :: rest) [] 0 0 with
           | .ok chunkRev more rest' =>
             if m > 0 ∧ ((d + chunkRev.length : Nat) : Int) > m then
-              (⟨outRev.reverse, .err .limit, if more then .closed else .pooled rest'⟩ : Client)
-            else if more then streamMore T m fuel rest' (chunkRev ++ outRev) (d + chunkRev.length)
-            else ⟨(chunkRev ++ outRev).reverse, .eof, .pooled rest'⟩
+              (⟨outRev.reverse, errFin none .limit, if more then .closed else .pooled rest'⟩ : Client)
+            else if accepts none (chunkRev.length + (if more then 0 else 1)) then
+              if more then streamMore T m fuel rest' (chunkRev ++ outRev) (d + chunkRev.length)
+                (spend none (chunkRev.length + (if more then 0 else 1)))
+              else ⟨(chunkRev ++ outRev).reverse, .eof, .pooled rest'⟩
+            else ⟨outRev.reverse ++ chunkRev.reverse.take ((none : Option Nat).getD 0), .closed,
+                  if more then .closed else .pooled rest'⟩
           | .errConn => ⟨outRev.reverse, .closed, .closed⟩
-          | .errBackend rest' => ⟨outRev.reverse, .err .backend, .pooled rest'⟩
-          | .errLimit rest' => ⟨outRev.reverse, .err .limit, .pooled rest'⟩
-          | .errLimitDrain => ⟨outRev.reverse, .err .limit, .closed⟩).fin = .err .limit := by
+          | .errBackend rest' => ⟨outRev.reverse, errFin none .backend, .pooled rest'⟩
+          | .errLimit rest' => ⟨outRev.reverse, errFin none .limit, .pooled rest'⟩
+          | .errLimitDrain => ⟨outRev.reverse, errFin none .limit, .closed⟩
+          | .stalled => ⟨outRev.reverse, .hang, .closed⟩).fin = .err .limit := by
       intro pre post e1 e2 e3
       rw [e3]
-      simp only [List.append_nil, List.length_reverse]
+      simp only [List.append_nil, List.length_reverse, accepts_none, spend_none, errFin_none]
       have hpre : 0 < pre.length := List.length_pos_iff.mpr e2
       by_cases hd : ((d + pre.length : Nat) : Int) > m
       · rw [if_pos ⟨hm, hd⟩]
@@ -705,16 +807,19 @@ theorem streamMore_over (T : Nat) (m : Int) (hm : m > 0) :
       | inl h =>
         obtain ⟨buf', h⟩ := h
         rw [h]
-        simp only [readRows, List.append_nil, List.length_reverse]
+        simp only [readRows, List.append_nil, List.length_reverse, errFin_none]
         rw [if_pos ⟨hm, h2⟩]
       | inr h =>
         obtain ⟨pre, post, e1, e2, e3⟩ := h
         exact chunk pre post e1 e2 e3
     · cases readRows_over T m hm rows (.eof :: rest) [] 0 0 (by omega) (by simpa using hc) with
       | inl h =>
-        cases isLimit_cases h with
-        | inl h => obtain ⟨r, h⟩ := h; rw [h]
-        | inr h => rw [h]
+        cases h with
+        | inl h =>
+          cases isLimit_cases h with
+          | inl h => obtain ⟨r, h⟩ := h; rw [h]; simp
+          | inr h => rw [h]; simp
+        | inr h => exact absurd h (readRows_complete_not_stalled T m rows rest [] 0 0)
       | inr h =>
         obtain ⟨pre, post, e1, e2, _, e4⟩ := h
         exact chunk pre post e1 e2 e4
@@ -724,17 +829,20 @@ theorem streamMore_over (T : Nat) (m : Int) (hm : m > 0) :
     with the limit error — also when no single 16 MiB chunk reaches the limit. -/
 theorem unshard_row_limit (T : Nat) (m : Int) (hm : m > 0) (rows : List Row) (rest : List Pkt)
     (h : (rows.length : Int) > m) :
-    (unshard T m (rowsOf rows ++ .eof :: rest)).fin = .err .limit := by
+    (unshard T m (rowsOf rows ++ .eof :: rest) none).fin = .err .limit := by
   rw [unshard_eq]
   cases readRows_over T m hm rows (.eof :: rest) [] 0 0 (by omega) (by simpa using h) with
   | inl h =>
-    cases isLimit_cases h with
-    | inl h => obtain ⟨r, h⟩ := h; rw [h]
-    | inr h => rw [h]
+    cases h with
+    | inl h =>
+      cases isLimit_cases h with
+      | inl h => obtain ⟨r, h⟩ := h; rw [h]; simp
+      | inr h => rw [h]; simp
+    | inr h => exact absurd h (readRows_complete_not_stalled T m rows rest [] 0 0)
   | inr h' =>
     obtain ⟨pre, post, e1, e2, e3, e4⟩ := h'
     rw [e4]
-    simp only [List.append_nil, if_true, List.length_reverse]
+    simp only [List.append_nil, sendResult, accepts_none, spend_none, if_true, List.length_reverse]
     have hpre : 0 < pre.length := List.length_pos_iff.mpr e2
     apply streamMore_over T m hm
     · simp; omega
@@ -743,16 +851,52 @@ theorem unshard_row_limit (T : Nat) (m : Int) (hm : m > 0) (rows : List Row) (re
       have : ((pre.length + post.length : Nat) : Int) > m := by simpa using h
       exact this
 
-example : unshard 10 (-1) [.row ⟨0, 6⟩, .row ⟨1, 6⟩, .row ⟨2, 6⟩, .eof] =
+/-- A stream has one reading as "rows, EOF, rest". -/
+theorem complete_unique : ∀ (a b : List Row) (r1 r2 : List Pkt),
+    rowsOf a ++ .eof :: r1 = rowsOf b ++ .eof :: r2 → a = b ∧ r1 = r2 := by
+  intro a
+  induction a with
+  | nil =>
+    intro b r1 r2 h
+    cases b with
+    | nil => simpa using h
+    | cons x xs => simp at h
+  | cons x xs ih =>
+    intro b r1 r2 h
+    cases b with
+    | nil => simp at h
+    | cons y ys =>
+      simp only [rowsOf_cons, List.cons_append, List.cons.injEq, Pkt.row.injEq] at h
+      obtain ⟨e1, e2⟩ := ih ys r1 r2 h.2
+      exact ⟨by rw [h.1, e1], e2⟩
+
+/-- **C39, a result over the limit is never presented as complete**, whatever
+    the client does: it ends with the limit error, or — when the client's
+    connection breaks first — with a closed connection. -/
+theorem unshard_over_limit_never_complete (T : Nat) (m : Int) (hm : m > 0) (rows : List Row) (rest : List Pkt)
+    (b : Option Nat) (h : (rows.length : Int) > m) :
+    (unshard T m (rowsOf rows ++ .eof :: rest) b).fin ≠ .eof := by
+  intro hfin
+  obtain ⟨rest', g1, _, g3⟩ := (unshard_complete T m _ b).2 hfin
+  have hl := g3 hm
+  rw [Complete] at g1
+  rw [← (complete_unique _ _ _ _ g1).1] at hl
+  omega
+
+example : unshard 10 (-1) [.row ⟨0, 6⟩, .row ⟨1, 6⟩, .row ⟨2, 6⟩, .eof] none =
     ⟨[⟨0, 6⟩, ⟨1, 6⟩, ⟨2, 6⟩], .eof, .pooled []⟩ := by decide
-example : unshard 10 3 [.row ⟨0, 6⟩, .row ⟨1, 6⟩, .row ⟨2, 6⟩, .eof] =
+example : unshard 10 3 [.row ⟨0, 6⟩, .row ⟨1, 6⟩, .row ⟨2, 6⟩, .eof] none =
     ⟨[⟨0, 6⟩, ⟨1, 6⟩, ⟨2, 6⟩], .eof, .pooled []⟩ := by decide
 -- two chunks of two rows, limit 3: the first chunk is delivered, then the limit error
-example : unshard 10 3 [.row ⟨0, 6⟩, .row ⟨1, 6⟩, .row ⟨2, 6⟩, .row ⟨3, 6⟩, .eof] =
+example : unshard 10 3 [.row ⟨0, 6⟩, .row ⟨1, 6⟩, .row ⟨2, 6⟩, .row ⟨3, 6⟩, .eof] none =
     ⟨[⟨0, 6⟩, ⟨1, 6⟩], .err .limit, .closed⟩ := by decide
 -- the backend connection is lost inside the second chunk
-example : unshard 10 (-1) [.row ⟨0, 6⟩, .row ⟨1, 6⟩, .row ⟨2, 6⟩] =
+example : unshard 10 (-1) [.row ⟨0, 6⟩, .row ⟨1, 6⟩, .row ⟨2, 6⟩] none =
     ⟨[⟨0, 6⟩, ⟨1, 6⟩], .closed, .closed⟩ := by decide
+-- the client's connection breaks after 7 packets (header, rows 0-1, row 2): the second chunk is
+-- not written, the backend connection is closed with row 3 and the EOF unread
+example : unshard 10 (-1) [.row ⟨0, 6⟩, .row ⟨1, 6⟩, .row ⟨2, 6⟩, .row ⟨3, 6⟩, .row ⟨4, 6⟩, .eof] (some 7) =
+    ⟨[⟨0, 6⟩, ⟨1, 6⟩, ⟨2, 6⟩], .closed, .closed⟩ := by decide
 
 /-! ### the recycled connection is clean -/
 
@@ -762,13 +906,13 @@ def Behind (s p : List Pkt) : Prop :=
   ∃ rws t, s = rowsOf rws ++ t :: p ∧ (t = Pkt.eof ∨ t = Pkt.err)
 
 theorem streamMore_fate (T : Nat) (m : Int) :
-    ∀ (fuel : Nat) (s : List Pkt) (outRev : List Row) (d : Nat) (p : List Pkt),
-      (streamMore T m fuel s outRev d).fate = .pooled p → Behind s p := by
+    ∀ (fuel : Nat) (s : List Pkt) (outRev : List Row) (d : Nat) (b : Option Nat) (p : List Pkt),
+      (streamMore T m fuel s outRev d b).fate = .pooled p → Behind s p := by
   intro fuel
   induction fuel with
-  | zero => intro s outRev d p h; simp [streamMore] at h
+  | zero => intro s outRev d b p h; simp [streamMore] at h
   | succ fuel ih =>
-    intro s outRev d p h
+    intro s outRev d b p h
     rw [streamMore_step] at h
     cases hr : readRows T m s [] 0 0 with
     | ok chunkRev more rest =>
@@ -781,14 +925,20 @@ theorem streamMore_fate (T : Nat) (m : Int) :
         by_cases hlim : m > 0 ∧ ((d + chunkRev.length : Nat) : Int) > m
         · rw [if_pos hlim] at h; cases h
         · rw [if_neg hlim] at h
-          obtain ⟨rws, t, f1, f2⟩ := ih _ _ _ _ h
-          exact ⟨new ++ rws, t, by rw [e2, f1]; simp, f2⟩
+          by_cases hacc : accepts b (chunkRev.length + 0) = true
+          · rw [if_pos hacc] at h
+            obtain ⟨rws, t, f1, f2⟩ := ih _ _ _ _ _ h
+            exact ⟨new ++ rws, t, by rw [e2, f1]; simp, f2⟩
+          · rw [if_neg hacc] at h; cases h
       | false =>
         simp only [Bool.false_eq_true, if_false] at e2 h
         have hp : rest = p := by
           by_cases hlim : m > 0 ∧ ((d + chunkRev.length : Nat) : Int) > m
           · rw [if_pos hlim] at h; simpa using h
-          · rw [if_neg hlim] at h; simpa using h
+          · rw [if_neg hlim] at h
+            by_cases hacc : accepts b (chunkRev.length + 1) = true
+            · rw [if_pos hacc] at h; simpa using h
+            · rw [if_neg hacc] at h; simpa using h
         subst hp
         exact ⟨new, .eof, e2, .inl rfl⟩
     | errConn => rw [hr] at h; cases h
@@ -805,28 +955,43 @@ theorem streamMore_fate (T : Nat) (m : Int) :
       obtain ⟨rws, h1⟩ := (readRows_err_rest (rest := r)).2 hr
       exact ⟨rws, .eof, h1, .inl rfl⟩
     | errLimitDrain => rw [hr] at h; cases h
+    | stalled => rw [hr] at h; cases h
+
+theorem sendResult_fate (T : Nat) (m : Int) (s : List Pkt) (rowsRev : List Row) (more : Bool)
+    (rest : List Pkt) (b : Option Nat) (p : List Pkt)
+    (hr : readRows T m s [] 0 0 = .ok rowsRev more rest)
+    (h : (sendResult T m rowsRev more rest b).fate = .pooled p) : Behind s p := by
+  obtain ⟨new, e1, e2, e3, e4⟩ := readRows_ok hr
+  unfold sendResult at h
+  cases more with
+  | true =>
+    simp only [if_true] at e2 h
+    by_cases hacc : accepts b (headerPackets + rowsRev.length + 0) = true
+    · rw [if_pos hacc] at h
+      obtain ⟨rws, t, f1, f2⟩ := streamMore_fate T m _ _ _ _ _ _ h
+      exact ⟨new ++ rws, t, by rw [e2, f1]; simp, f2⟩
+    · rw [if_neg hacc] at h; cases h
+  | false =>
+    simp only [Bool.false_eq_true, if_false] at e2 h
+    have hp : rest = p := by
+      by_cases hacc : accepts b (headerPackets + rowsRev.length + 1) = true
+      · rw [if_pos hacc] at h; simpa using h
+      · rw [if_neg hacc] at h; simpa using h
+    subst hp
+    exact ⟨new, .eof, e2, .inl rfl⟩
 
 /-- **A recycled connection is clean (unsharded).** A backend connection that
     goes back to the pool after an unsharded statement stands right behind the
     packet that closed the result: no row of it is left for the next statement
-    to trip over (otherwise `Recycle` has closed the connection). -/
-theorem unshard_fate_clean (T : Nat) (m : Int) (s p : List Pkt)
-    (h : (unshard T m s).fate = .pooled p) : Behind s p := by
+    to trip over (otherwise it has been closed) — whether the result was
+    delivered, refused for its size, or the client went away in the middle. -/
+theorem unshard_fate_clean (T : Nat) (m : Int) (s p : List Pkt) (b : Option Nat)
+    (h : (unshard T m s b).fate = .pooled p) : Behind s p := by
   rw [unshard_eq] at h
   cases hr : readRows T m s [] 0 0 with
   | ok rowsRev more rest =>
     rw [hr] at h
-    obtain ⟨new, e1, e2, e3, e4⟩ := readRows_ok hr
-    simp only at h
-    cases more with
-    | true =>
-      simp only [if_true] at e2 h
-      obtain ⟨rws, t, f1, f2⟩ := streamMore_fate T m _ _ _ _ _ h
-      exact ⟨new ++ rws, t, by rw [e2, f1]; simp, f2⟩
-    | false =>
-      simp only [Bool.false_eq_true, if_false, Fate.pooled.injEq] at e2 h
-      subst h
-      exact ⟨new, .eof, e2, .inl rfl⟩
+    exact sendResult_fate T m s rowsRev more rest b p hr h
   | errConn => rw [hr] at h; cases h
   | errBackend r =>
     rw [hr] at h
@@ -841,6 +1006,7 @@ theorem unshard_fate_clean (T : Nat) (m : Int) (s p : List Pkt)
     obtain ⟨rws, h1⟩ := (readRows_err_rest (rest := r)).2 hr
     exact ⟨rws, .eof, h1, .inl rfl⟩
   | errLimitDrain => rw [hr] at h; cases h
+  | stalled => rw [hr] at h; cases h
 
 def Shard.fate? : Shard → Option Fate
   | .ok _ f => some f
@@ -885,6 +1051,7 @@ theorem fetchAll_fate (T : Nat) (m : Int) :
       obtain ⟨rws, h1⟩ := (readRows_err_rest (rest := r)).2 hr
       exact ⟨rws, .eof, h1, .inl rfl⟩
     | errLimitDrain => rw [hr] at h; simp [Shard.fate?] at h
+    | stalled => rw [hr] at h; simp [Shard.fate?] at h
 
 /-- **A recycled connection is clean (sharded).** -/
 theorem execShard_fate_clean (T : Nat) (m : Int) (s p : List Pkt)
@@ -894,13 +1061,13 @@ theorem execShard_fate_clean (T : Nat) (m : Int) (s p : List Pkt)
 /-! ### the loops terminate (the `fuel` outcomes are unreachable) -/
 
 theorem streamMore_fuel (T : Nat) (m : Int) :
-    ∀ (fuel : Nat) (s : List Pkt) (outRev : List Row) (d : Nat),
-      s.length < fuel → (streamMore T m fuel s outRev d).fin ≠ .fuel := by
+    ∀ (fuel : Nat) (s : List Pkt) (outRev : List Row) (d : Nat) (b : Option Nat),
+      s.length < fuel → (streamMore T m fuel s outRev d b).fin ≠ .fuel := by
   intro fuel
   induction fuel with
-  | zero => intro s _ _ h; omega
+  | zero => intro s _ _ _ h; omega
   | succ fuel ih =>
-    intro s outRev d hf
+    intro s outRev d b hf
     rw [streamMore_step]
     cases hr : readRows T m s [] 0 0 with
     | ok chunkRev more rest =>
@@ -909,32 +1076,43 @@ theorem streamMore_fuel (T : Nat) (m : Int) :
       by_cases hlim : m > 0 ∧ ((d + chunkRev.length : Nat) : Int) > m
       · rw [if_pos hlim]; simp
       · rw [if_neg hlim]
-        cases more with
-        | true =>
-          simp only [if_true] at e2 ⊢
-          apply ih
-          have hn : 0 < new.length := List.length_pos_iff.mpr (e3 rfl)
-          rw [e2] at hf
-          simp only [List.length_append, rowsOf_length] at hf
-          omega
-        | false => simp
+        by_cases hacc : accepts b (chunkRev.length + (if more = true then 0 else 1)) = true
+        · rw [if_pos hacc]
+          cases more with
+          | true =>
+            simp only [if_true] at e2 ⊢
+            apply ih
+            have hn : 0 < new.length := List.length_pos_iff.mpr (e3 rfl)
+            rw [e2] at hf
+            simp only [List.length_append, rowsOf_length] at hf
+            omega
+          | false => simp
+        · rw [if_neg hacc]; simp
     | errConn => simp
     | errBackend r => simp
     | errLimit r => simp
     | errLimitDrain => simp
+    | stalled => simp
 
-theorem unshard_fuel (T : Nat) (m : Int) (s : List Pkt) : (unshard T m s).fin ≠ .fuel := by
+theorem sendResult_fuel (T : Nat) (m : Int) (rowsRev : List Row) (more : Bool) (rest : List Pkt)
+    (b : Option Nat) : (sendResult T m rowsRev more rest b).fin ≠ .fuel := by
+  unfold sendResult
+  by_cases hacc : accepts b (headerPackets + rowsRev.length + (if more = true then 0 else 1)) = true
+  · rw [if_pos hacc]
+    cases more with
+    | true => simp only [if_true]; exact streamMore_fuel T m _ _ _ _ _ (by omega)
+    | false => simp
+  · rw [if_neg hacc]; simp
+
+theorem unshard_fuel (T : Nat) (m : Int) (s : List Pkt) (b : Option Nat) : (unshard T m s b).fin ≠ .fuel := by
   rw [unshard_eq]
   cases hr : readRows T m s [] 0 0 with
-  | ok rowsRev more rest =>
-    simp only
-    cases more with
-    | true => simp only [if_true]; exact streamMore_fuel T m _ _ _ _ (by omega)
-    | false => simp
+  | ok rowsRev more rest => exact sendResult_fuel T m rowsRev more rest b
   | errConn => simp
   | errBackend r => simp
   | errLimit r => simp
   | errLimitDrain => simp
+  | stalled => simp
 
 theorem fetchAll_fuel (T : Nat) (m : Int) :
     ∀ (fuel : Nat) (s : List Pkt) (acc : List Row) (n : Nat),
@@ -962,6 +1140,7 @@ theorem fetchAll_fuel (T : Nat) (m : Int) :
     | errBackend r => simp
     | errLimit r => simp
     | errLimitDrain => simp
+    | stalled => simp
 
 theorem execShard_fuel (T : Nat) (m : Int) (s : List Pkt) : execShard T m s ≠ .fuel :=
   fetchAll_fuel T m _ s [] 0 (by omega)
@@ -972,22 +1151,22 @@ theorem execShard_fuel (T : Nat) (m : Int) (s : List Pkt) : execShard T m s ≠ 
     any threshold would do — the theorems above do not depend on it). For
     every row limit and backend stream: (1) the client receives the leading
     rows of the backend's answer; (2) a closing EOF means they are all rows of
-    a complete backend result, within the limit; (3) a complete result within
-    the limit is delivered in full with its EOF; (4) a complete result over the
-    limit ends with the limit error. -/
+    a complete backend result, within the limit — both whatever the client does
+    (`b`); (3) a complete result within the limit is delivered in full with its
+    EOF to a client that keeps reading; (4) a complete result over the limit
+    ends with the limit error. -/
 theorem C39_unsharded (m : Int) (s : List Pkt) :
-    (∃ rest, s = rowsOf (unshard Gen.maxPayloadLen m s).rows ++ rest) ∧
-    ((unshard Gen.maxPayloadLen m s).fin = .eof →
-      ∃ rest', Complete s (unshard Gen.maxPayloadLen m s).rows rest' ∧
-        (m > 0 → ((unshard Gen.maxPayloadLen m s).rows.length : Int) ≤ m)) ∧
+    (∀ b, ∃ rest, s = rowsOf (unshard Gen.maxPayloadLen m s b).rows ++ rest) ∧
+    (∀ b, (unshard Gen.maxPayloadLen m s b).fin = .eof →
+      ∃ rest', Complete s (unshard Gen.maxPayloadLen m s b).rows rest' ∧
+        (m > 0 → ((unshard Gen.maxPayloadLen m s b).rows.length : Int) ≤ m)) ∧
     (∀ rows rest, Complete s rows rest → Within m rows.length →
-      (unshard Gen.maxPayloadLen m s).rows = rows ∧ (unshard Gen.maxPayloadLen m s).fin = .eof) ∧
+      (unshard Gen.maxPayloadLen m s none).rows = rows ∧ (unshard Gen.maxPayloadLen m s none).fin = .eof) ∧
     (∀ rows rest, Complete s rows rest → m > 0 → (rows.length : Int) > m →
-      (unshard Gen.maxPayloadLen m s).fin = .err .limit) := by
-  have h := unshard_complete Gen.maxPayloadLen m s
-  refine ⟨h.1, ?_, ?_, ?_⟩
-  · intro hf
-    obtain ⟨rest', g1, _, g3⟩ := h.2 hf
+      (unshard Gen.maxPayloadLen m s none).fin = .err .limit) := by
+  refine ⟨fun b => (unshard_complete Gen.maxPayloadLen m s b).1, ?_, ?_, ?_⟩
+  · intro b hf
+    obtain ⟨rest', g1, _, g3⟩ := (unshard_complete Gen.maxPayloadLen m s b).2 hf
     exact ⟨rest', g1, g3⟩
   · intro rows rest hc hw
     rw [Complete] at hc; subst hc
@@ -1027,5 +1206,982 @@ theorem C39_sharded (m : Int) (shards : List (List Pkt)) :
 /-- **C39/C38 (a streamed result keeps its own column definitions).** -/
 theorem streamed_columns_never_written_in_place :
     Gen.c39FieldsWrittenInPlace = [] ∧ Gen.c39FieldsWriters ≠ [] := by decide
+
+/-! ## Whole sessions (`Model/ResultSession.lean`)
+
+  Transactions and keep-session pinning, multi-result answers, statement
+  time-outs, clients that stop reading, the binary protocol (same functions: the
+  model has no protocol parameter) and sharded statements from above the
+  planner. -/
+
+/-! ### what the client is shown of an answer -/
+
+/-- `vs` is what a client may be shown of the results `rs` of an answer, in
+    order: every result it is told is complete (an OK packet, or a result set
+    closed by an EOF) is the corresponding result of the backend — for a result
+    set: *all* rows of a complete backend result (`Complete`), within the row
+    limit, with the backend's more-results flag — and at most the last result
+    it sees is cut short (`ended = none`), holding leading rows of the backend's
+    result and nothing else. -/
+inductive Shown (m : Int) : List RView → List Res → Prop
+  | nil (rs : List Res) : Shown m [] rs
+  | okp (more : Bool) {vs : List RView} {rs : List Res} :
+      Shown m vs rs → Shown m (.okp more :: vs) (.okp more :: rs)
+  | full (more : Bool) {rows : List Row} {body rest : List Pkt} {vs : List RView} {rs : List Res} :
+      Complete body rows rest → (m > 0 → (rows.length : Int) ≤ m) → Shown m vs rs →
+      Shown m (.rs rows (some more) :: vs) (.set more body :: rs)
+  | part (more : Bool) {rows : List Row} {body tail : List Pkt} (rs : List Res) :
+      body = rowsOf rows ++ tail → Shown m [.rs rows none] (.set more body :: rs)
+
+/-- `vs` is the whole answer: every result up to (and including) the first one
+    that announces no further result, each in full. -/
+inductive Finished (m : Int) : List RView → List Res → Prop
+  | okp (rs : List Res) : Finished m [.okp false] (.okp false :: rs)
+  | okpMore {vs : List RView} {rs : List Res} :
+      Finished m vs rs → Finished m (.okp true :: vs) (.okp true :: rs)
+  | set {rows : List Row} {body rest : List Pkt} (rs : List Res) :
+      Complete body rows rest → (m > 0 → (rows.length : Int) ≤ m) →
+      Finished m [.rs rows (some false)] (.set false body :: rs)
+  | setMore {rows : List Row} {body rest : List Pkt} {vs : List RView} {rs : List Res} :
+      Complete body rows rest → (m > 0 → (rows.length : Int) ≤ m) → Finished m vs rs →
+      Finished m (.rs rows (some true) :: vs) (.set true body :: rs)
+
+theorem Finished.shown {m : Int} : ∀ {vs : List RView} {rs : List Res}, Finished m vs rs → Shown m vs rs := by
+  intro vs rs h
+  induction h with
+  | okp rs => exact .okp false (.nil _)
+  | okpMore _ ih => exact .okp true ih
+  | set rs hc hl => exact .full false hc hl (.nil _)
+  | setMore hc hl _ ih => exact .full true hc hl ih
+
+@[simp] theorem sErrFin_ne_done (b : Option Nat) (k : SErr) : sErrFin b k ≠ .done := by
+  unfold sErrFin; split <;> simp
+
+theorem timedOut_views (first armed : Bool) (acc : List RView) (b : Option Nat) :
+    (timedOut first armed acc b).views = acc.reverse ∧ (timedOut first armed acc b).fin ≠ .done ∧
+    (timedOut first armed acc b).conn = .closed := by
+  unfold timedOut; split <;> simp
+
+/-- What `unResults` guarantees, whatever the answer, the limit, the deadline
+    and the client. -/
+def UnSound (m : Int) (rs : List Res) (acc : List RView) (o : StmtOut) : Prop :=
+  ∃ vs, o.views = acc.reverse ++ vs ∧ Shown m vs rs ∧ (o.fin = .done → Finished m vs rs)
+
+theorem UnSound.none {m : Int} {rs : List Res} {acc : List RView} {o : StmtOut}
+    (h1 : o.views = acc.reverse) (h2 : o.fin ≠ .done) : UnSound m rs acc o :=
+  ⟨[], by simp [h1], .nil _, fun h => absurd h h2⟩
+
+theorem unResults_sound (T : Nat) (m : Int) (armed : Bool) :
+    ∀ (rs : List Res) (first : Bool) (b : Option Nat) (acc : List RView),
+      UnSound m rs acc (unResults T m armed first rs b acc) := by
+  intro rs
+  induction rs with
+  | nil => intro first b acc; exact UnSound.none (by simp [unResults]) (by simp [unResults])
+  | cons r rs ih =>
+    intro first b acc
+    cases r with
+    | stall0 =>
+      obtain ⟨h1, h2, _⟩ := timedOut_views first armed acc b
+      exact UnSound.none (by simpa [unResults] using h1) (by simpa [unResults] using h2)
+    | errp => exact UnSound.none (by simp [unResults]) (by simp [unResults])
+    | okp more =>
+      simp only [unResults]
+      by_cases hacc : accepts b 1 = true
+      · rw [if_pos hacc]
+        cases more with
+        | true =>
+          simp only [if_true]
+          obtain ⟨vs, h1, h2, h3⟩ := ih false (spend b 1) (.okp true :: acc)
+          exact ⟨.okp true :: vs, by rw [h1]; simp, .okp true h2, fun h => .okpMore (h3 h)⟩
+        | false =>
+          simp only [Bool.false_eq_true, if_false]
+          exact ⟨[.okp false], by simp, .okp false (.nil _), fun _ => .okp _⟩
+      · rw [if_neg hacc]
+        exact UnSound.none rfl (by simp)
+    | set more body =>
+      simp only [unResults]
+      cases hr : readRows T m body [] 0 0 with
+      | ok rowsRev moreRows rest =>
+        simp only
+        obtain ⟨⟨rest', e1⟩, e2⟩ := sendResult_sound T m body rowsRev moreRows rest b hr
+        cases hfin : (sendResult T m rowsRev moreRows rest b).fin with
+        | eof =>
+          simp only
+          obtain ⟨rest'', g1, g2, g3⟩ := e2 hfin
+          cases more with
+          | true =>
+            simp only [if_true]
+            obtain ⟨vs, h1, h2, h3⟩ := ih false
+              (spend b (headerPackets + (sendResult T m rowsRev moreRows rest b).rows.length + 1))
+              (.rs (sendResult T m rowsRev moreRows rest b).rows (some true) :: acc)
+            exact ⟨_ :: vs, by rw [h1]; simp, .full true g1 g3 h2, fun h => .setMore g1 g3 (h3 h)⟩
+          | false =>
+            simp only [Bool.false_eq_true, if_false]
+            exact ⟨[.rs _ (some false)], by simp, .full false g1 g3 (.nil _), fun _ => .set _ g1 g3⟩
+        | err k =>
+          simp only
+          by_cases hacc : accepts b 1 = true
+          · rw [if_pos hacc]
+            refine ⟨[.rs _ none], by simp, .part more rs e1, ?_⟩
+            cases k <;> simp
+          · rw [if_neg hacc]
+            refine UnSound.none rfl ?_
+            cases k <;> simp
+        | closed =>
+          simp only
+          by_cases hacc : accepts b 1 = true
+          · rw [if_pos hacc]
+            exact ⟨[.rs _ none], by simp, .part more rs e1, by simp⟩
+          · rw [if_neg hacc]
+            exact UnSound.none rfl (by simp)
+        | stalled =>
+          simp only
+          by_cases hacc : accepts b 1 = true
+          · rw [if_pos hacc]
+            exact ⟨[.rs _ none], by simp, .part more rs e1, by simp⟩
+          · rw [if_neg hacc]
+            exact UnSound.none rfl (by simp)
+        | hang =>
+          simp only
+          by_cases hacc : accepts b 1 = true
+          · rw [if_pos hacc]
+            exact ⟨[.rs _ none], by simp, .part more rs e1, by simp⟩
+          · rw [if_neg hacc]
+            exact UnSound.none rfl (by simp)
+        | fuel =>
+          simp only
+          by_cases hacc : accepts b 1 = true
+          · rw [if_pos hacc]
+            exact ⟨[.rs _ none], by simp, .part more rs e1, by simp⟩
+          · rw [if_neg hacc]
+            exact UnSound.none rfl (by simp)
+      | errConn => exact UnSound.none rfl (by simp)
+      | errBackend rest => exact UnSound.none rfl (by simp)
+      | errLimit rest =>
+        simp only
+        cases more with
+        | true =>
+          simp only [if_true]
+          cases drainMore rs with
+          | ok left => exact UnSound.none rfl (by simp)
+          | failed left => exact UnSound.none rfl (by simp)
+          | lost => exact UnSound.none rfl (by simp)
+          | stalled =>
+            obtain ⟨h1, h2, _⟩ := timedOut_views first armed acc b
+            exact UnSound.none h1 h2
+        | false => exact UnSound.none rfl (by simp)
+      | errLimitDrain =>
+        simp only
+        cases afterFirstErr body with
+        | some rest => exact UnSound.none rfl (by simp)
+        | none => exact UnSound.none rfl (by simp)
+      | stalled =>
+        obtain ⟨h1, h2, _⟩ := timedOut_views first armed acc b
+        exact UnSound.none h1 h2
+
+/-! ### answers as a MySQL server sends them, and the state of the connection afterwards -/
+
+/-- How a result set ends on the wire. -/
+inductive BodyEnd where
+  /-- the closing EOF -/
+  | eof
+  /-- an ERR packet (error during execution, KILL QUERY) -/
+  | err
+  /-- nothing more: the connection is lost -/
+  | cut
+  /-- silence -/
+  | stall
+  deriving DecidableEq
+
+def bodyOf (rows : List Row) : BodyEnd → List Pkt
+  | .eof => rowsOf rows ++ [.eof]
+  | .err => rowsOf rows ++ [.err]
+  | .cut => rowsOf rows
+  | .stall => rowsOf rows ++ [.stall]
+
+/-- A well-formed answer: results flagged "more" are followed by a result; an
+    OK packet or result set without the flag, an ERR packet, a lost connection
+    or silence ends the answer; nothing follows the packet that closes a result
+    set. -/
+inductive WF : List Res → Prop
+  | okpLast : WF [.okp false]
+  | okpMore {rs : List Res} : WF rs → WF (.okp true :: rs)
+  | errp : WF [.errp]
+  | stall0 : WF [.stall0]
+  | setLast (rows : List Row) (e : BodyEnd) : WF [.set false (bodyOf rows e)]
+  | setMore (rows : List Row) {rs : List Res} : WF rs → WF (.set true (bodyOf rows .eof) :: rs)
+  | setEnd (rows : List Row) (e : BodyEnd) : e ≠ .eof → WF [.set true (bodyOf rows e)]
+
+/-- The connection is closed, or nothing is unread on it. -/
+def CleanAfter (c : ConnAfter) : Prop := c = .closed ∨ ∃ pk, c = .live ⟨[], []⟩ pk
+
+theorem rows_split_unique : ∀ (a b : List Row) (x y : Pkt) (p q : List Pkt),
+    (∀ r, x ≠ .row r) → (∀ r, y ≠ .row r) →
+    rowsOf a ++ x :: p = rowsOf b ++ y :: q → a = b ∧ x = y ∧ p = q := by
+  intro a
+  induction a with
+  | nil =>
+    intro b x y p q hx hy h
+    cases b with
+    | nil => simpa using h
+    | cons r rs => simp only [rowsOf_nil, List.nil_append, rowsOf_cons, List.cons_append, List.cons.injEq] at h; exact absurd h.1 (hx r)
+  | cons r rs ih =>
+    intro b x y p q hx hy h
+    cases b with
+    | nil =>
+      simp only [rowsOf_nil, List.nil_append, rowsOf_cons, List.cons_append, List.cons.injEq] at h
+      exact absurd h.1.symm (hy r)
+    | cons r' rs' =>
+      simp only [rowsOf_cons, List.cons_append, List.cons.injEq, Pkt.row.injEq] at h
+      obtain ⟨e1, e2, e3⟩ := ih rs' x y p q hx hy h.2
+      exact ⟨by rw [h.1, e1], e2, e3⟩
+
+theorem rows_no_terminal : ∀ (a b : List Row) (x : Pkt) (p : List Pkt),
+    (∀ r, x ≠ .row r) → rowsOf a ++ x :: p ≠ rowsOf b := by
+  intro a
+  induction a with
+  | nil =>
+    intro b x p hx h
+    cases b with
+    | nil => simp at h
+    | cons r rs => simp only [rowsOf_nil, List.nil_append, rowsOf_cons, List.cons.injEq] at h; exact hx r h.1
+  | cons r rs ih =>
+    intro b x p hx h
+    cases b with
+    | nil => simp at h
+    | cons r' rs' =>
+      simp only [rowsOf_cons, List.cons_append, List.cons.injEq] at h
+      exact ih rs' x p hx h.2
+
+/-- Behind the packet that closed a well-formed result set there is nothing. -/
+theorem behind_bodyOf {rows : List Row} {e : BodyEnd} {p : List Pkt} (h : Behind (bodyOf rows e) p) : p = [] := by
+  obtain ⟨rws, t, h1, h2⟩ := h
+  have ht : ∀ r, t ≠ .row r := by intro r; cases h2 with | inl h => rw [h]; simp | inr h => rw [h]; simp
+  cases e with
+  | eof => exact (rows_split_unique rws rows t .eof p [] ht (by simp) (by simpa [bodyOf] using h1.symm)).2.2
+  | err => exact (rows_split_unique rws rows t .err p [] ht (by simp) (by simpa [bodyOf] using h1.symm)).2.2
+  | cut => exact absurd (by simpa [bodyOf] using h1.symm) (rows_no_terminal rws rows t p ht)
+  | stall =>
+    have := (rows_split_unique rws rows t .stall p [] ht (by simp) (by simpa [bodyOf] using h1.symm)).2.1
+    cases h2 with
+    | inl h => rw [h] at this; cases this
+    | inr h => rw [h] at this; cases this
+
+theorem afterFirstErr_rows : ∀ (rows : List Row) (tail : List Pkt),
+    afterFirstErr (rowsOf rows ++ tail) = afterFirstErr tail := by
+  intro rows
+  induction rows with
+  | nil => intro tail; rfl
+  | cons r rs ih => intro tail; simp [afterFirstErr, ih]
+
+theorem afterFirstErr_bodyOf {rows : List Row} {e : BodyEnd} {rest : List Pkt}
+    (h : afterFirstErr (bodyOf rows e) = some rest) : rest = [] := by
+  cases e with
+  | eof => rw [bodyOf, afterFirstErr_rows] at h; simp [afterFirstErr] at h
+  | err => rw [bodyOf, afterFirstErr_rows] at h; simp [afterFirstErr] at h; exact h
+  | cut =>
+    have : afterFirstErr (rowsOf rows ++ []) = some rest := by simpa [bodyOf] using h
+    rw [afterFirstErr_rows] at this; simp [afterFirstErr] at this
+  | stall => rw [bodyOf, afterFirstErr_rows] at h; simp [afterFirstErr] at h
+
+theorem drain_rows : ∀ (rows : List Row) (tail : List Pkt),
+    drainResults (rowsOf rows ++ tail) = drainResults tail := by
+  intro rows
+  induction rows with
+  | nil => intro tail; rfl
+  | cons r rs ih => intro tail; simp [drainResults, ih]
+
+/-- Draining the rest of a well-formed answer leaves nothing behind. -/
+theorem drainMore_wf : ∀ {rs : List Res}, WF rs →
+    drainMore rs = .ok [] ∨ drainMore rs = .failed [] ∨ drainMore rs = .lost ∨ drainMore rs = .stalled := by
+  intro rs h
+  induction h with
+  | okpLast => simp [drainMore]
+  | okpMore _ ih => simpa [drainMore] using ih
+  | errp => simp [drainMore]
+  | stall0 => simp [drainMore]
+  | setLast rows e =>
+    cases e with
+    | eof => simp [drainMore, bodyOf, drain_rows, drainResults]
+    | err => simp [drainMore, bodyOf, drain_rows, drainResults, afterFirstErr_rows, afterFirstErr]
+    | cut =>
+      have e1 : drainResults (rowsOf rows) = .failed := by
+        have := drain_rows rows []; simp only [List.append_nil] at this; rw [this]; rfl
+      have e2 : afterFirstErr (rowsOf rows) = none := by
+        have := afterFirstErr_rows rows []; simp only [List.append_nil] at this; rw [this]; rfl
+      simp [drainMore, bodyOf, e1, e2]
+    | stall => simp [drainMore, bodyOf, drain_rows, drainResults]
+  | setMore rows _ ih => simpa [drainMore, bodyOf, drain_rows, drainResults] using ih
+  | setEnd rows e he =>
+    cases e with
+    | eof => exact absurd rfl he
+    | err => simp [drainMore, bodyOf, drain_rows, drainResults, afterFirstErr_rows, afterFirstErr]
+    | cut =>
+      have e1 : drainResults (rowsOf rows) = .failed := by
+        have := drain_rows rows []; simp only [List.append_nil] at this; rw [this]; rfl
+      have e2 : afterFirstErr (rowsOf rows) = none := by
+        have := afterFirstErr_rows rows []; simp only [List.append_nil] at this; rw [this]; rfl
+      simp [drainMore, bodyOf, e1, e2]
+    | stall => simp [drainMore, bodyOf, drain_rows, drainResults]
+
+theorem CleanAfter.closed : CleanAfter .closed := .inl rfl
+theorem CleanAfter.live (pk : Bool) : CleanAfter (.live ⟨[], []⟩ pk) := .inr ⟨pk, rfl⟩
+
+theorem readRows_errBackend_bodyOf {T : Nat} {m : Int} {rows : List Row} {e : BodyEnd} {acc : List Row}
+    {n buf : Nat} {rest : List Pkt} (h : readRows T m (bodyOf rows e) acc n buf = .errBackend rest) : rest = [] := by
+  obtain ⟨rws, h1⟩ := (readRows_err_rest (rest := rest)).1 h
+  exact behind_bodyOf ⟨rws, .err, h1, .inr rfl⟩
+
+theorem readRows_errLimit_bodyOf {T : Nat} {m : Int} {rows : List Row} {e : BodyEnd} {acc : List Row}
+    {n buf : Nat} {rest : List Pkt} (h : readRows T m (bodyOf rows e) acc n buf = .errLimit rest) : rest = [] := by
+  obtain ⟨rws, h1⟩ := (readRows_err_rest (rest := rest)).2 h
+  exact behind_bodyOf ⟨rws, .eof, h1, .inl rfl⟩
+
+theorem sendResult_fate_bodyOf {T : Nat} {m : Int} {rows : List Row} {e : BodyEnd} {rowsRev : List Row}
+    {more : Bool} {rest : List Pkt} {b : Option Nat} {p : List Pkt}
+    (hr : readRows T m (bodyOf rows e) [] 0 0 = .ok rowsRev more rest)
+    (h : (sendResult T m rowsRev more rest b).fate = .pooled p) : p = [] :=
+  behind_bodyOf (sendResult_fate T m _ rowsRev more rest b p hr h)
+
+/-- The last result set of an answer (no further result announced), or any
+    result set of a well-formed answer that does not end with its EOF: whatever
+    happens, the connection is closed or has nothing unread. -/
+theorem unResults_clean_last (T : Nat) (m : Int) (armed : Bool) (rows : List Row) (e : BodyEnd)
+    (more first : Bool) (b : Option Nat) (acc : List RView) (hme : more = true → e ≠ .eof) :
+    CleanAfter (unResults T m armed first [.set more (bodyOf rows e)] b acc).conn := by
+  simp only [unResults]
+  cases hr : readRows T m (bodyOf rows e) [] 0 0 with
+  | ok rowsRev moreRows rest =>
+    simp only
+    cases hfin : (sendResult T m rowsRev moreRows rest b).fin with
+    | eof =>
+      simp only
+      cases more with
+      | true => simp only [if_true, unResults]; exact .closed
+      | false =>
+        simp only [Bool.false_eq_true, if_false]
+        cases hf : (sendResult T m rowsRev moreRows rest b).fate with
+        | closed => exact .closed
+        | pooled p => rw [sendResult_fate_bodyOf hr hf]; exact .live _
+    | err k =>
+      simp only
+      cases hf : (sendResult T m rowsRev moreRows rest b).fate with
+      | closed => exact .closed
+      | pooled p =>
+        rw [sendResult_fate_bodyOf hr hf]
+        cases more with
+        | true => exact .closed
+        | false => exact .live _
+    | closed =>
+      simp only
+      cases hf : (sendResult T m rowsRev moreRows rest b).fate with
+      | closed => exact .closed
+      | pooled p =>
+        rw [sendResult_fate_bodyOf hr hf]
+        cases more with
+        | true => exact .closed
+        | false => exact .live _
+    | stalled =>
+      simp only
+      cases hf : (sendResult T m rowsRev moreRows rest b).fate with
+      | closed => exact .closed
+      | pooled p =>
+        rw [sendResult_fate_bodyOf hr hf]
+        cases more with
+        | true => exact .closed
+        | false => exact .live _
+    | hang =>
+      simp only
+      cases hf : (sendResult T m rowsRev moreRows rest b).fate with
+      | closed => exact .closed
+      | pooled p =>
+        rw [sendResult_fate_bodyOf hr hf]
+        cases more with
+        | true => exact .closed
+        | false => exact .live _
+    | fuel =>
+      simp only
+      cases hf : (sendResult T m rowsRev moreRows rest b).fate with
+      | closed => exact .closed
+      | pooled p =>
+        rw [sendResult_fate_bodyOf hr hf]
+        cases more with
+        | true => exact .closed
+        | false => exact .live _
+  | errConn => exact .closed
+  | errBackend rest => rw [readRows_errBackend_bodyOf hr]; exact .live _
+  | errLimit rest =>
+    simp only
+    rw [readRows_errLimit_bodyOf hr]
+    cases more with
+    | true => simp only [if_true, drainMore]; exact .closed
+    | false => exact .live _
+  | errLimitDrain =>
+    simp only
+    cases ha : afterFirstErr (bodyOf rows e) with
+    | some rest => simp only; rw [afterFirstErr_bodyOf ha]; exact .live _
+    | none => exact .closed
+  | stalled => exact .inl (timedOut_views first armed acc b).2.2
+
+/-- **A connection never keeps packets of an answer.** After an unsharded
+    statement whose backend answered with a well-formed answer — whatever the
+    row limit, the deadline and the client did — the backend connection is
+    closed or nothing of the answer is unread on it. -/
+theorem unResults_clean (T : Nat) (m : Int) (armed : Bool) :
+    ∀ {rs : List Res}, WF rs → ∀ (first : Bool) (b : Option Nat) (acc : List RView),
+      CleanAfter (unResults T m armed first rs b acc).conn := by
+  intro rs h
+  induction h with
+  | okpLast =>
+    intro first b acc
+    simp only [unResults]
+    by_cases hacc : accepts b 1 = true
+    · rw [if_pos hacc]; simp only [Bool.false_eq_true, if_false]; exact .live _
+    · rw [if_neg hacc]; simp only [Bool.false_eq_true, if_false]; exact .live _
+  | okpMore _ ih =>
+    intro first b acc
+    simp only [unResults]
+    by_cases hacc : accepts b 1 = true
+    · rw [if_pos hacc]; simp only [if_true]; exact ih _ _ _
+    · rw [if_neg hacc]; simp only [if_true]; exact .closed
+  | errp => intro first b acc; simp only [unResults]; exact .live _
+  | stall0 => intro first b acc; simp only [unResults]; exact .inl (timedOut_views first armed acc b).2.2
+  | setLast rows e => intro first b acc; exact unResults_clean_last T m armed rows e false first b acc (by simp)
+  | setEnd rows e he => intro first b acc; exact unResults_clean_last T m armed rows e true first b acc (fun _ => he)
+  | @setMore rows rs hwf ih =>
+    intro first b acc
+    simp only [unResults]
+    cases hr : readRows T m (bodyOf rows .eof) [] 0 0 with
+    | ok rowsRev moreRows rest =>
+      simp only
+      cases hfin : (sendResult T m rowsRev moreRows rest b).fin with
+      | eof => simp only [if_true]; exact ih _ _ _
+      | err k =>
+        simp only
+        cases hf : (sendResult T m rowsRev moreRows rest b).fate with
+        | closed => exact .closed
+        | pooled p => exact .closed
+      | closed =>
+        simp only
+        cases hf : (sendResult T m rowsRev moreRows rest b).fate with
+        | closed => exact .closed
+        | pooled p => exact .closed
+      | stalled =>
+        simp only
+        cases hf : (sendResult T m rowsRev moreRows rest b).fate with
+        | closed => exact .closed
+        | pooled p => exact .closed
+      | hang =>
+        simp only
+        cases hf : (sendResult T m rowsRev moreRows rest b).fate with
+        | closed => exact .closed
+        | pooled p => exact .closed
+      | fuel =>
+        simp only
+        cases hf : (sendResult T m rowsRev moreRows rest b).fate with
+        | closed => exact .closed
+        | pooled p => exact .closed
+    | errConn => exact .closed
+    | errBackend rest =>
+      -- impossible: the body holds no ERR packet
+      obtain ⟨rws, h1⟩ := (readRows_err_rest (rest := rest)).1 hr
+      have := (rows_split_unique rws rows .err .eof rest [] (by simp) (by simp) (by simpa [bodyOf] using h1.symm)).2.1
+      cases this
+    | errLimit rest =>
+      simp only [if_true]
+      rw [readRows_errLimit_bodyOf hr]
+      rcases drainMore_wf hwf with h | h | h | h <;> rw [h]
+      · exact .live _
+      · exact .live _
+      · exact .closed
+      · exact .inl (timedOut_views first armed acc b).2.2
+    | errLimitDrain =>
+      simp only
+      have : afterFirstErr (bodyOf rows .eof) = none := by
+        rw [bodyOf, afterFirstErr_rows]; rfl
+      rw [this]; exact .closed
+    | stalled => exact .inl (timedOut_views first armed acc b).2.2
+
+/-! ### sharded statements from above the planner -/
+
+/-- The rows returned for the statements of a slice are, statement by statement,
+    all rows of a complete backend result within the limit. -/
+inductive TablesDone (m : Int) : List TRes → List (List Row) → Prop
+  | nil : TablesDone m [] []
+  | cons {body rest : List Pkt} {rows : List Row} {ts : List TRes} {rss : List (List Row)} :
+      Complete body rows rest → (m > 0 → (rows.length : Int) ≤ m) → TablesDone m ts rss →
+      TablesDone m (.set body :: ts) (rows :: rss)
+
+theorem execSlice_ok (T : Nat) (m : Int) (armed : Bool) :
+    ∀ (ts : List TRes) (acc rss : List (List Row)) (c : ConnAfter),
+      execSlice T m armed ts acc = (.ok rss, c) → ∃ new, rss = acc.reverse ++ new ∧ TablesDone m ts new := by
+  intro ts
+  induction ts with
+  | nil =>
+    intro acc rss c h
+    simp only [execSlice, Prod.mk.injEq, SliceOut.ok.injEq] at h
+    exact ⟨[], by simp [h.1], .nil⟩
+  | cons t ts ih =>
+    intro acc rss c h
+    cases t with
+    | errp => simp [execSlice] at h
+    | stall0 => simp only [execSlice] at h; split at h <;> simp at h
+    | set body =>
+      simp only [execSlice] at h
+      cases hs : execShard T m body with
+      | ok rows fate =>
+        obtain ⟨rest, g1, g2, g3⟩ := execShard_ok T m body rows fate hs
+        subst g2
+        rw [hs] at h
+        cases ts with
+        | nil =>
+          simp only [Prod.mk.injEq, SliceOut.ok.injEq] at h
+          exact ⟨[rows], by simp [← h.1], .cons g1 g3 .nil⟩
+        | cons t' ts' =>
+          simp only at h
+          by_cases he : rest.isEmpty = true
+          · rw [if_pos he] at h
+            obtain ⟨new, e1, e2⟩ := ih (rows :: acc) rss c h
+            exact ⟨rows :: new, by simp [e1], .cons g1 g3 e2⟩
+          · rw [if_neg he] at h; simp at h
+      | errLimit fate =>
+        rw [hs] at h
+        cases fate with
+        | closed => simp only at h; split at h <;> simp at h
+        | pooled p => simp at h
+      | errBackend fate => rw [hs] at h; cases fate <;> simp at h
+      | errConn => rw [hs] at h; simp at h
+      | stalled => rw [hs] at h; simp only at h; split at h <;> simp at h
+      | fuel => rw [hs] at h; simp at h
+
+/-- A sub-table's answer as a MySQL server sends it. -/
+def TWF : TRes → Prop
+  | .errp => True
+  | .stall0 => True
+  | .set body => ∃ rows e, body = bodyOf rows e
+
+theorem execShard_pooled_bodyOf {T : Nat} {m : Int} {rows : List Row} {e : BodyEnd} {p : List Pkt}
+    (h : Shard.fate? (execShard T m (bodyOf rows e)) = some (.pooled p)) : p = [] :=
+  behind_bodyOf (execShard_fate_clean T m _ p h)
+
+/-- The statements of a slice never run into each other's packets, and the
+    connection is closed or clean afterwards. -/
+theorem execSlice_clean (T : Nat) (m : Int) (armed : Bool) :
+    ∀ (ts : List TRes) (acc : List (List Row)), (∀ t ∈ ts, TWF t) →
+      (execSlice T m armed ts acc).1 ≠ .desync ∧ CleanAfter (execSlice T m armed ts acc).2 := by
+  intro ts
+  induction ts with
+  | nil => intro acc _; simp only [execSlice]; exact ⟨by simp, .live _⟩
+  | cons t ts ih =>
+    intro acc hwf
+    have hts : ∀ t ∈ ts, TWF t := fun t ht => hwf t (by simp [ht])
+    cases t with
+    | errp => simp only [execSlice]; exact ⟨by simp, .live _⟩
+    | stall0 => simp only [execSlice]; split <;> exact ⟨by simp, .closed⟩
+    | set body =>
+      obtain ⟨rows, e, hb⟩ := hwf (.set body) (by simp)
+      subst hb
+      simp only [execSlice]
+      cases hs : execShard T m (bodyOf rows e) with
+      | ok rws fate =>
+        cases fate with
+        | closed => exact ⟨by simp, .closed⟩
+        | pooled p =>
+          have hp : p = [] := execShard_pooled_bodyOf (by rw [hs]; rfl)
+          subst hp
+          cases ts with
+          | nil => exact ⟨by simp, .live _⟩
+          | cons t' ts' => simp only [List.isEmpty_nil, if_true]; exact ih _ hts
+      | errLimit fate =>
+        cases fate with
+        | closed =>
+          simp only
+          cases ha : afterFirstErr (bodyOf rows e) with
+          | some rest => simp only; rw [afterFirstErr_bodyOf ha]; exact ⟨by simp, .live _⟩
+          | none => exact ⟨by simp, .closed⟩
+        | pooled p =>
+          have hp : p = [] := execShard_pooled_bodyOf (by rw [hs]; rfl)
+          subst hp
+          exact ⟨by simp, .live _⟩
+      | errBackend fate =>
+        cases fate with
+        | closed => exact ⟨by simp, .closed⟩
+        | pooled p =>
+          have hp : p = [] := execShard_pooled_bodyOf (by rw [hs]; rfl)
+          subst hp
+          exact ⟨by simp, .live _⟩
+      | errConn => exact ⟨by simp, .closed⟩
+      | stalled => simp only; split <;> exact ⟨by simp, .closed⟩
+      | fuel => exact ⟨by simp, .closed⟩
+
+/-- The client is told that a sharded statement's result is complete only when
+    every slice returned its rows; the result then holds the rows of all slices,
+    one after the other. -/
+theorem sqClient_done (outs : List SliceOut) (b : Option Nat) (hnd : ∀ o ∈ outs, o ≠ .desync)
+    (h : (sqClient outs b).2 = .done) :
+    (∀ o ∈ outs, ∃ rows, o = .ok rows) ∧
+    (sqClient outs b).1 = [.rs (outs.map fun o => o.rows.flatten).flatten (some false)] := by
+  unfold sqClient at h ⊢
+  by_cases hh : outs.any SliceOut.isHang = true
+  · rw [if_pos hh] at h; simp at h
+  · rw [if_neg hh] at h ⊢
+    cases he : outs.filterMap SliceOut.err? with
+    | cons k ks => rw [he] at h; simp at h
+    | nil =>
+      rw [he] at h
+      simp only at h ⊢
+      by_cases hacc : accepts b (headerPackets + ((outs.map fun o => o.rows.flatten).flatten).length + 1) = true
+      · rw [if_pos hacc]
+        refine ⟨?_, rfl⟩
+        intro o ho
+        cases o with
+        | ok rows => exact ⟨rows, rfl⟩
+        | err k =>
+          have : k ∈ outs.filterMap SliceOut.err? := List.mem_filterMap.mpr ⟨_, ho, rfl⟩
+          rw [he] at this; simp at this
+        | hang =>
+          exfalso; apply hh
+          exact List.any_eq_true.mpr ⟨_, ho, rfl⟩
+        | desync => exact absurd rfl (hnd _ ho)
+      · rw [if_neg hacc] at h
+        split at h <;> simp at h
+
+/-! ### whole sessions: no statement ever starts on a connection with unread packets -/
+
+/-- The live connection of a slice, if any, has nothing unread. -/
+def SlClean (s : Sl) : Prop := ∀ l, s.conn = some l → l = ⟨[], []⟩
+
+/-- Every live connection of the session is clean and no command was ever
+    sent on an unclean one. -/
+def SessClean (ss : Sess) : Prop := SlClean ss.s0 ∧ SlClean ss.s1 ∧ ss.desync = false
+
+/-- The backends answer the statement with well-formed answers. -/
+def StmtWF : Stmt → Prop
+  | .un answer _ => WF answer
+  | .sq t0 t1 _ => (∀ t ∈ t0, TWF t) ∧ (∀ t ∈ t1, TWF t)
+  | _ => True
+
+theorem SlClean.fit {s : Sl} (h : SlClean s) : s.fit = true := by
+  unfold Sl.fit
+  cases hc : s.conn with
+  | none => rfl
+  | some l => rw [h l hc]; rfl
+
+theorem SlClean.pinnedFit {s : Sl} (h : SlClean s) : s.pinnedFit = true := by
+  unfold Sl.pinnedFit; rw [h.fit]; simp
+
+theorem SlClean.endTx {s : Sl} (h : SlClean s) (ks : Bool) : SlClean (s.endTx ks) := by
+  unfold Sl.endTx; split
+  · exact h
+  · exact h
+
+theorem SlClean.after {s : Sl} (pin : Bool) {ca : ConnAfter} (hc : CleanAfter ca) : SlClean (s.after pin ca).1 := by
+  unfold Sl.after
+  rcases hc with hc | ⟨pk, hc⟩
+  · subst hc; intro l hl; simp at hl
+  · subst hc
+    simp only
+    split
+    · intro l hl; simp at hl; exact hl.symm
+    · split
+      · intro l hl; simp at hl
+      · intro l hl; simp at hl; exact hl.symm
+
+theorem sqStep_clean (ss : Sess) (r0 r1 : Option (SliceOut × ConnAfter)) (b : Option Nat)
+    (hc : SessClean ss)
+    (h0 : ∀ r, r0 = some r → r.1 ≠ .desync ∧ CleanAfter r.2)
+    (h1 : ∀ r, r1 = some r → r.1 ≠ .desync ∧ CleanAfter r.2) :
+    SessClean (sqStep ss r0 r1 b).1 := by
+  obtain ⟨c0, c1, hd⟩ := hc
+  have hno : (List.any (List.map (fun x => x.1) (r0.toList ++ r1.toList)) SliceOut.isDesync) = false := by
+    rw [Bool.eq_false_iff]
+    intro h
+    obtain ⟨o, ho, he⟩ := List.any_eq_true.mp h
+    have he' : o = SliceOut.desync := by cases o <;> simp [SliceOut.isDesync] at he ⊢
+    subst he'
+    simp only [List.map_append, List.mem_append, List.mem_map, Option.mem_toList] at ho
+    rcases ho with ⟨x, hx, hx1⟩ | ⟨x, hx, hx1⟩
+    · exact (h0 x hx).1 hx1
+    · exact (h1 x hx).1 hx1
+  simp only [sqStep, hno, Bool.false_eq_true, if_false]
+  refine ⟨?_, ?_, hd⟩
+  · cases r0 with
+    | none => exact c0
+    | some r => exact SlClean.after _ (h0 r rfl).2
+  · cases r1 with
+    | none => exact c1
+    | some r => exact SlClean.after _ (h1 r rfl).2
+
+theorem step_clean (T : Nat) (m : Int) (armed : Bool) (ss : Sess) (st : Stmt)
+    (hc : SessClean ss) (hw : StmtWF st) : SessClean (step T m armed ss st).1 := by
+  have hc' := hc
+  obtain ⟨h0, h1, hd⟩ := hc
+  unfold step
+  by_cases hg : (!ss.alive || ss.desync) = true
+  · rw [if_pos hg]; exact ⟨h0, h1, hd⟩
+  · rw [if_neg hg]
+    cases st with
+    | begin =>
+      simp only [h0.pinnedFit, h1.pinnedFit, Bool.and_self, if_true]
+      exact ⟨h0, h1, hd⟩
+    | commit =>
+      simp only [h0.pinnedFit, h1.pinnedFit, Bool.and_self, if_true]
+      exact ⟨h0.endTx _, h1.endTx _, hd⟩
+    | rollback =>
+      simp only [h0.pinnedFit, h1.pinnedFit, Bool.and_self, if_true]
+      exact ⟨h0.endTx _, h1.endTx _, hd⟩
+    | un answer b =>
+      simp only [h0.fit, Bool.not_true, Bool.false_eq_true, if_false]
+      refine ⟨SlClean.after _ ?_, h1, hd⟩
+      exact unResults_clean T m armed hw true b []
+    | sq t0 t1 b =>
+      simp only [h0.fit, h1.fit, Bool.not_true, Bool.and_false, Bool.or_self, Bool.false_eq_true, if_false]
+      apply sqStep_clean _ _ _ _ hc'
+      · intro r hr
+        split at hr
+        · cases hr
+        · cases hr; exact execSlice_clean T m armed t0 [] hw.1
+      · intro r hr
+        split at hr
+        · cases hr
+        · cases hr; exact execSlice_clean T m armed t1 [] hw.2
+
+theorem run_clean (T : Nat) (m : Int) (armed : Bool) :
+    ∀ (sts : List Stmt) (ss : Sess) (acc : List Answer), SessClean ss → (∀ st ∈ sts, StmtWF st) →
+      SessClean (run T m armed ss sts acc).1 := by
+  intro sts
+  induction sts with
+  | nil => intro ss acc hc _; simpa [run] using hc
+  | cons st sts ih =>
+    intro ss acc hc hw
+    have h1 := step_clean T m armed ss st hc (hw st (by simp))
+    have hws : ∀ st ∈ sts, StmtWF st := fun s hs => hw s (by simp [hs])
+    simp only [run]
+    cases hs : step T m armed ss st with
+    | mk ss' oa =>
+      rw [hs] at h1
+      cases oa with
+      | some a => exact ih ss' _ h1 hws
+      | none => exact ih ss' _ h1 hws
+
+theorem SessClean.init (ks : Bool) : SessClean (Sess.init ks) := by
+  refine ⟨?_, ?_, rfl⟩ <;> intro l hl <;> simp [Sess.init] at hl
+
+theorem SlClean.final_packets {s : Sl} (h : SlClean s) (ks : Bool) :
+    (s.final ks).2 = none ∨ (s.final ks).2 = some 0 := by
+  unfold Sl.final
+  cases hc : s.conn with
+  | none => exact .inl rfl
+  | some l =>
+    rw [h l hc]
+    simp only
+    split
+    · exact .inl rfl
+    · exact .inr rfl
+
+/-! ### the statements of a session, as the client sees them -/
+
+/-- **C39, unsharded statements in a session (`stmt_complete_or_error`).** For
+    every answer of the backend (any number of results, each ending any way),
+    every row limit, with or without a statement deadline, inside or outside a
+    transaction (the statement does not depend on it), and whatever the client
+    does: what the client is shown is, result by result and in order, what the
+    backend sent — a result it is told is complete holds *all* rows of a
+    complete backend result, within the limit, and carries the backend's
+    more-results flag; only the last one can be cut short (then an ERR packet
+    or a closed connection follows, never an EOF) — and if the answer ends as
+    finished (`done`), every result up to the first one that announces no
+    further result was delivered in full. -/
+theorem stmt_complete_or_error (T : Nat) (m : Int) (armed : Bool) (answer : List Res) (b : Option Nat) :
+    Shown m (unStmt T m armed answer b).views answer ∧
+    ((unStmt T m armed answer b).fin = .done → Finished m (unStmt T m armed answer b).views answer) := by
+  obtain ⟨vs, h1, h2, h3⟩ := unResults_sound T m armed answer true b []
+  simp only [List.reverse_nil, List.nil_append] at h1
+  unfold unStmt
+  rw [h1]
+  exact ⟨h2, h3⟩
+
+/-- **The fate of the connection (`stmt_connection_clean`).** After an
+    unsharded statement answered with a well-formed answer the backend
+    connection is closed, or nothing of the answer is unread on it — for every
+    limit, deadline and client behaviour (row limit exceeded in any result of a
+    multi-result answer, client gone in the middle of a stream, …). -/
+theorem stmt_connection_clean (T : Nat) (m : Int) (armed : Bool) (answer : List Res) (b : Option Nat)
+    (hw : WF answer) : CleanAfter (unStmt T m armed answer b).conn :=
+  unResults_clean T m armed hw true b []
+
+/-- What `step` answers to an unsharded statement is what `unStmt` computes. -/
+theorem step_un_answer (T : Nat) (m : Int) (armed : Bool) (ss ss' : Sess) (answer : List Res)
+    (b : Option Nat) (a : Answer) (h : step T m armed ss (.un answer b) = (ss', some a)) :
+    a.views = (unStmt T m armed answer b).views ∧ a.fin = (unStmt T m armed answer b).fin := by
+  simp only [step] at h
+  by_cases hg : (!ss.alive || ss.desync) = true
+  · rw [if_pos hg] at h; simp at h
+  · rw [if_neg hg] at h
+    by_cases hf : (!ss.s0.fit) = true
+    · rw [if_pos hf] at h; simp at h
+    · rw [if_neg hf] at h
+      simp only [Prod.mk.injEq, Option.some.injEq] at h
+      rw [← h.2]; exact ⟨rfl, rfl⟩
+
+/-- **C39 for every unsharded statement of every session.** -/
+theorem session_un_complete_or_error (T : Nat) (m : Int) (armed : Bool) (ss ss' : Sess) (answer : List Res)
+    (b : Option Nat) (a : Answer) (h : step T m armed ss (.un answer b) = (ss', some a)) :
+    Shown m a.views answer ∧ (a.fin = .done → Finished m a.views answer) := by
+  obtain ⟨e1, e2⟩ := step_un_answer T m armed ss ss' answer b a h
+  rw [e1, e2]
+  exact stmt_complete_or_error T m armed answer b
+
+/-- **A transaction whose connection was closed ends the session** (time-out,
+    stream given up with packets unread, connection lost): no later statement
+    of the transaction runs on another connection. -/
+theorem tx_closed_connection_ends_session (T : Nat) (m : Int) (armed : Bool) (ss : Sess) (answer : List Res)
+    (b : Option Nat) (halive : ss.alive = true) (hd : ss.desync = false) (hfit : ss.s0.fit = true)
+    (htx : ss.tx = true) (hc : (unStmt T m armed answer b).conn = .closed) :
+    (step T m armed ss (.un answer b)).1.alive = false := by
+  unfold step
+  simp only [halive, hd, hfit, htx, hc, Sl.after, Bool.not_true, Bool.or_self, Bool.false_eq_true, if_false,
+    Bool.true_or, Bool.true_and, Bool.or_true, Bool.not_true]
+
+theorem sqStep_answer (ss ss' : Sess) (r0 r1 : Option (SliceOut × ConnAfter)) (b : Option Nat) (a : Answer)
+    (h : sqStep ss r0 r1 b = (ss', some a)) :
+    List.any (List.map (fun x => x.1) (r0.toList ++ r1.toList)) SliceOut.isDesync = false ∧
+    a.views = (sqClient (List.map (fun x => x.1) (r0.toList ++ r1.toList)) b).1 ∧
+    a.fin = (sqClient (List.map (fun x => x.1) (r0.toList ++ r1.toList)) b).2 := by
+  simp only [sqStep] at h
+  by_cases hd : List.any (List.map (fun x => x.1) (r0.toList ++ r1.toList)) SliceOut.isDesync = true
+  · rw [if_pos hd] at h; simp at h
+  · rw [if_neg hd] at h
+    simp only [Prod.mk.injEq, Option.some.injEq] at h
+    refine ⟨by simpa using hd, ?_, ?_⟩ <;> rw [← h.2]
+
+theorem step_sq_answer (T : Nat) (m : Int) (armed : Bool) (ss ss' : Sess) (t0 t1 : List TRes)
+    (b : Option Nat) (a : Answer) (h : step T m armed ss (.sq t0 t1 b) = (ss', some a)) :
+    sqStep ss (if t0.isEmpty then none else some (execSlice T m armed t0 []))
+      (if t1.isEmpty then none else some (execSlice T m armed t1 [])) b = (ss', some a) := by
+  simp only [step] at h
+  by_cases hg : (!ss.alive || ss.desync) = true
+  · rw [if_pos hg] at h; simp at h
+  · rw [if_neg hg] at h
+    by_cases hf : ((!t0.isEmpty && !ss.s0.fit) || (!t1.isEmpty && !ss.s1.fit)) = true
+    · rw [if_pos hf] at h; simp at h
+    · rw [if_neg hf] at h; exact h
+
+/-- **C39, sharded statements from above the planner (`sq_complete_or_error`).**
+    If the client is told that the result of `SELECT … FROM t [WHERE …]` over
+    the routed sub-tables is complete, then every sub-table's backend result was
+    complete (rows, then EOF) and within the row limit, and the client's rows
+    are exactly all rows of all sub-tables, slice by slice in table order. A
+    slice that answered with an error, lost its connection or fell silent makes
+    the whole statement fail — the rows of the other slices are never delivered
+    alone. -/
+theorem session_sq_complete_or_error (T : Nat) (m : Int) (armed : Bool) (ss ss' : Sess) (t0 t1 : List TRes)
+    (b : Option Nat) (a : Answer) (h : step T m armed ss (.sq t0 t1 b) = (ss', some a)) (hf : a.fin = .done) :
+    ∃ rss0 rss1, TablesDone m t0 rss0 ∧ TablesDone m t1 rss1 ∧
+      a.views = [.rs (rss0.flatten ++ rss1.flatten) (some false)] := by
+  obtain ⟨hnd, hv, hfin⟩ := sqStep_answer _ _ _ _ _ _ (step_sq_answer T m armed ss ss' t0 t1 b a h)
+  rw [hf] at hfin
+  have hnd' : ∀ o ∈ List.map (fun x => x.1)
+      ((if t0.isEmpty = true then none else some (execSlice T m armed t0 [])).toList ++
+       (if t1.isEmpty = true then none else some (execSlice T m armed t1 [])).toList), o ≠ .desync := by
+    intro o ho he
+    have : List.any _ SliceOut.isDesync = true := List.any_eq_true.mpr ⟨o, ho, by rw [he]; rfl⟩
+    rw [hnd] at this; cases this
+  obtain ⟨hall, hviews⟩ := sqClient_done _ b hnd' hfin.symm
+  -- the rows of a slice
+  have slice : ∀ (ts : List TRes),
+      (∀ o ∈ (if ts.isEmpty = true then none else some (execSlice T m armed ts [])).toList.map (fun x => x.1),
+        ∃ rows, o = SliceOut.ok rows) →
+      ∃ rss, TablesDone m ts rss ∧
+        ((if ts.isEmpty = true then none else some (execSlice T m armed ts [])).toList.map
+          (fun x => (x.1 : SliceOut).rows.flatten)).flatten = rss.flatten := by
+    intro ts hok
+    by_cases hts : ts.isEmpty = true
+    · have : ts = [] := List.isEmpty_iff.mp hts
+      subst this
+      exact ⟨[], .nil, by simp⟩
+    · rw [if_neg hts] at hok ⊢
+      obtain ⟨rows, hr⟩ := hok (execSlice T m armed ts []).1 (by simp)
+      obtain ⟨new, e1, e2⟩ := execSlice_ok T m armed ts [] rows (execSlice T m armed ts []).2
+        (by rw [← hr])
+      simp only [List.reverse_nil, List.nil_append] at e1
+      subst e1
+      exact ⟨rows, e2, by simp [hr, SliceOut.rows]⟩
+  obtain ⟨rss0, d0, f0⟩ := slice t0 (fun o ho => hall o (by
+    simp only [List.map_append, List.mem_append]; exact .inl ho))
+  obtain ⟨rss1, d1, f1⟩ := slice t1 (fun o ho => hall o (by
+    simp only [List.map_append, List.mem_append]; exact .inr ho))
+  refine ⟨rss0, rss1, d0, d1, ?_⟩
+  rw [hv, hviews]
+  simp only [List.map_append, List.map_map, List.flatten_append]
+  have g0 : (List.map ((fun o => o.rows.flatten) ∘ fun x => x.1)
+      (if t0.isEmpty = true then none else some (execSlice T m armed t0 [])).toList).flatten = rss0.flatten := by
+    rw [← f0]; rfl
+  have g1 : (List.map ((fun o => o.rows.flatten) ∘ fun x => x.1)
+      (if t1.isEmpty = true then none else some (execSlice T m armed t1 [])).toList).flatten = rss1.flatten := by
+    rw [← f1]; rfl
+  rw [g0, g1]
+
+/-- **C39, whole sessions: no statement ever reads another statement's packets
+    (`session_never_desyncs`).** For every history of a session — statements in
+    and outside transactions, with or without keep-session, with or without a
+    statement deadline, any row limit, unsharded and sharded statements, clients
+    that stop reading anywhere — over backends that answer with well-formed
+    answers: no command is ever sent on a backend connection that still holds
+    unread packets (also not the ROLLBACK of `Session.Close`), and every
+    connection that is back in its pool at the end has nothing unread. -/
+theorem session_never_desyncs (T : Nat) (m : Int) (armed : Bool) (ks : Bool) (sts : List Stmt)
+    (hw : ∀ st ∈ sts, StmtWF st) :
+    (run T m armed (Sess.init ks) sts []).1.desync = false ∧
+    (run T m armed (Sess.init ks) sts []).1.closeFit = true ∧
+    (((run T m armed (Sess.init ks) sts []).1.s0.final ks).2 = none ∨
+      ((run T m armed (Sess.init ks) sts []).1.s0.final ks).2 = some 0) ∧
+    (((run T m armed (Sess.init ks) sts []).1.s1.final ks).2 = none ∨
+      ((run T m armed (Sess.init ks) sts []).1.s1.final ks).2 = some 0) := by
+  obtain ⟨h0, h1, hd⟩ := run_clean T m armed sts (Sess.init ks) [] (SessClean.init ks) hw
+  refine ⟨hd, ?_, h0.final_packets ks, h1.final_packets ks⟩
+  unfold Sess.closeFit
+  rw [h0.pinnedFit, h1.pinnedFit]; rfl
+
+/-! ### examples -/
+
+-- a transaction, chunks of two rows (T = 10, rows of 6 bytes), limit 3: the second chunk takes the
+-- result over the limit while rows are still pending: limit error, the connection is closed, the
+-- session ends and the third statement is not executed
+example : (run 10 3 false (Sess.init false)
+    [.begin,
+     .un [.set false [.row ⟨0, 6⟩, .row ⟨1, 6⟩, .row ⟨2, 6⟩, .row ⟨3, 6⟩, .row ⟨4, 6⟩, .row ⟨5, 6⟩, .eof]] none,
+     .un [.set false [.row ⟨0, 6⟩, .eof]] none] []).2 =
+    [⟨[.okp false], .done, true⟩, ⟨[.rs [⟨0, 6⟩, ⟨1, 6⟩] none], .err .limit, false⟩] := by decide
+
+-- two results, the second one of two chunks: both are delivered in full, the first with the flag
+example : unStmt 10 (-1) false
+    [.set true [.row ⟨0, 6⟩, .eof], .set false [.row ⟨1, 6⟩, .row ⟨2, 6⟩, .row ⟨3, 6⟩, .eof]] none =
+    ⟨[.rs [⟨0, 6⟩] (some true), .rs [⟨1, 6⟩, ⟨2, 6⟩, ⟨3, 6⟩] (some false)], .done, .live ⟨[], []⟩ false⟩ := by decide
+
+-- the first result of three is over the limit: the other two are drained, the connection stays usable
+example : unStmt 10 1 false
+    [.set true [.row ⟨0, 6⟩, .row ⟨1, 6⟩, .eof], .set true [.row ⟨2, 6⟩, .eof], .okp false] none =
+    ⟨[], .err .limit, .live ⟨[], []⟩ false⟩ := by decide
+
+-- the backend falls silent after one row: with a deadline the statement fails, the connection is closed
+example : unStmt 10 (-1) true [.set false [.row ⟨0, 6⟩, .stall]] none = ⟨[], .err .timeout, .closed⟩ := by decide
+
+-- the client's connection breaks after 7 packets of a three-chunk result: connection closed
+example : unStmt 10 (-1) false
+    [.set false [.row ⟨0, 6⟩, .row ⟨1, 6⟩, .row ⟨2, 6⟩, .row ⟨3, 6⟩, .row ⟨4, 6⟩, .eof]] (some 7) =
+    ⟨[.rs [⟨0, 6⟩, ⟨1, 6⟩, ⟨2, 6⟩] none], .closed, .closed⟩ := by decide
+
+-- a sharded statement over two sub-tables of slice-0 and one of slice-1
+example : (step 10 (-1) false (Sess.init false)
+    (.sq [.set [.row ⟨0, 6⟩, .eof], .set [.row ⟨1, 6⟩, .row ⟨2, 6⟩, .eof]] [.set [.row ⟨3, 6⟩, .eof]] none)).2 =
+    some ⟨[.rs [⟨0, 6⟩, ⟨1, 6⟩, ⟨2, 6⟩, ⟨3, 6⟩] (some false)], .done, true⟩ := by decide
+
+-- … one of which answers with an ERR packet after its rows: error, nothing is delivered
+example : (step 10 (-1) false (Sess.init false)
+    (.sq [.set [.row ⟨0, 6⟩, .eof], .set [.row ⟨1, 6⟩, .err]] [.set [.row ⟨3, 6⟩, .eof]] none)).2 =
+    some ⟨[], .err .backend, true⟩ := by decide
+
+example : WF [.set true (bodyOf [⟨0, 6⟩] .eof), .okp false] := .setMore _ .okpLast
 
 end GaeaVerif.C39
